@@ -27,19 +27,27 @@ open Sys Sys.C04
 
 /-! ## Serialization without the machine -/
 
-/-- `_MessageSerializer.serialize` for serializers that are functions (`σ sid v`); a declared key
-that is missing is skipped here and excluded by `present`. -/
-def applyT (σ : Nat → FV → FV) : List (String × Nat) → Msg → Msg
-  | [], m => m
-  | (key, sid) :: r, m =>
+/-- `_MessageSerializer.serialize` for serializers that do not raise: `σ sid v k` is what serializer
+`sid` returns for `v` when it is the `k`-th serializer call overall (the result may depend on the call
+number); `k` = the number of serializer calls made before this message; a declared key that is missing
+is skipped here and excluded by `present`. -/
+def applyT (σ : Nat → FV → Nat → FV) : Nat → List (String × Nat) → Msg → Msg
+  | _, [], m => m
+  | k, (key, sid) :: r, m =>
     match m.get? key with
-    | none => applyT σ r m
-    | some v => applyT σ r (m.set key (σ sid v))
+    | none => applyT σ k r m
+    | some v => applyT σ (k + 1) r (m.set key (σ sid v k))
 
-def serOpt (σ : Nat → FV → FV) (sers : Option (List (String × Nat))) (m : Msg) : Msg :=
+def serOpt (σ : Nat → FV → Nat → FV) (k : Nat) (sers : Option (List (String × Nat))) (m : Msg) : Msg :=
   match sers with
   | none => m
-  | some ss => applyT σ ss m
+  | some ss => applyT σ k ss m
+
+/-- the number of serializer calls a message with these declared fields makes -/
+def nser (sers : Option (List (String × Nat))) : Nat :=
+  match sers with
+  | none => 0
+  | some ss => ss.length
 
 /-- every declared key is a key of the dict -/
 def present (ss : List (String × Nat)) (m : Fields) : Bool := ss.all fun p => (m.get? p.1).isSome
@@ -52,24 +60,24 @@ def presentOpt (sers : Option (List (String × Nat))) (m : Fields) : Bool :=
 /-! ## The dicts of one message, as functions of where it sits -/
 
 /-- the dict of `log_message(ms.mtype, **ms.fields)` / `MessageType.log` in task `u` at level `L`,
-stamped by clock read `tick` -/
-def leafDict (σ : Nat → FV → FV) (u : Nat) (L : Level) (tick : Nat) (ms : MSpec) : Msg :=
-  serOpt σ ms.sers
+stamped by clock read `tick`, serialized after `k` earlier serializer calls -/
+def leafDict (σ : Nat → FV → Nat → FV) (u : Nat) (L : Level) (tick k : Nat) (ms : MSpec) : Msg :=
+  serOpt σ k ms.sers
     ((((ms.fields.set "timestamp" (.ts tick)).set "task_uuid" (.uuid u)).set "task_level" (.lvl L)).set
       "message_type" (.str ms.mtype))
 
 /-- the start message of an action of spec `sp`; `L` is the level of the message (action level ++ [1]) -/
-def startDict (σ : Nat → FV → FV) (u : Nat) (L : Level) (tick : Nat) (sp : Spec) : Msg :=
-  serOpt σ (sp.sers.map (·.1))
+def startDict (σ : Nat → FV → Nat → FV) (u : Nat) (L : Level) (tick k : Nat) (sp : Spec) : Msg :=
+  serOpt σ k (sp.sers.map (·.1))
     (((((sp.fields.set "action_status" (.str "started")).set "timestamp" (.ts tick)).set "task_uuid" (.uuid u)).set
       "action_type" (.str sp.atype)).set "task_level" (.lvl L))
 
 /-- the end message: success fields (serialized), or the fields `xf` extracted from the exception
 with the exception's class and text (and the structural keys) written over them -/
-def endDict (env : Env) (σ : Nat → FV → FV) (u : Nat) (L : Level) (tick : Nat) (atype : String)
+def endDict (env : Env) (σ : Nat → FV → Nat → FV) (u : Nat) (L : Level) (tick k : Nat) (atype : String)
     (sers : Option (List (String × Nat) × List (String × Nat))) (succ xf : Fields) : Outcome → Msg
   | .ok =>
-    serOpt σ (sers.map (·.2))
+    serOpt σ k (sers.map (·.2))
       (((((succ.set "action_status" (.str "succeeded")).set "timestamp" (.ts tick)).set "task_uuid" (.uuid u)).set
         "action_type" (.str atype)).set "task_level" (.lvl L))
   | .raised e =>
@@ -102,11 +110,12 @@ def extOut (env : Env) (o : Outcome) (k : Nat) : Fields × Nat :=
 
 mutual
 /-- an action or message the program performed; `tick`/`st`/`et` identify the message(s): the
-number of the clock read that stamped it; `xf` = the fields an exception extractor returned for
+number of the clock read that stamped it; `sk`/`ss`/`es`: the number of serializer calls made before the
+message was serialized; `xf` = the fields an exception extractor returned for
 the exception that failed the action (`[]` otherwise) -/
 inductive T where
-  | leaf (tick : Nat) (ms : MSpec)
-  | node (sp : Spec) (st et : Nat) (succ : Fields) (res : Outcome) (xf : Fields) (kids : F)
+  | leaf (tick sk : Nat) (ms : MSpec)
+  | node (sp : Spec) (st et ss es : Nat) (succ : Fields) (res : Outcome) (xf : Fields) (kids : F)
 /-- the content of an action in order; `sep u t` = a task started (or a message logged) outside
 the action's tree: its own tree with uuid number `u`, taking no position -/
 inductive F where
@@ -132,21 +141,21 @@ def T.rootLevel : T → Level
   | .node .. => []
 
 mutual
-def T.dicts (env : Env) (σ : Nat → FV → FV) (u : Nat) : T → Level → List Msg
-  | .leaf tick ms, L => [leafDict σ u L tick ms]
-  | .node sp st et succ res xf kids, L =>
-    startDict σ u (L ++ [1]) st sp ::
-      (F.dicts env σ u kids L 2 ++ [endDict env σ u (L ++ [kids.len + 2]) et sp.atype sp.sers succ xf res])
-def F.dicts (env : Env) (σ : Nat → FV → FV) (u : Nat) : F → Level → Nat → List Msg
+def T.dicts (env : Env) (σ : Nat → FV → Nat → FV) (u : Nat) : T → Level → List Msg
+  | .leaf tick sk ms, L => [leafDict σ u L tick sk ms]
+  | .node sp st et ss es succ res xf kids, L =>
+    startDict σ u (L ++ [1]) st ss sp ::
+      (F.dicts env σ u kids L 2 ++ [endDict env σ u (L ++ [kids.len + 2]) et es sp.atype sp.sers succ xf res])
+def F.dicts (env : Env) (σ : Nat → FV → Nat → FV) (u : Nat) : F → Level → Nat → List Msg
   | .nil, _, _ => []
   | .own t r, L, k => T.dicts env σ u t (L ++ [k]) ++ F.dicts env σ u r L (k + 1)
   | .sep u' t r, L, k => T.dicts env σ u' t t.rootLevel ++ F.dicts env σ u r L k
 end
 
 /-- the dicts of a separate tree with uuid number `u` -/
-def T.top (env : Env) (σ : Nat → FV → FV) (u : Nat) (t : T) : List Msg := T.dicts env σ u t t.rootLevel
+def T.top (env : Env) (σ : Nat → FV → Nat → FV) (u : Nat) (t : T) : List Msg := T.dicts env σ u t t.rootLevel
 
-theorem F.dicts_sep (env : Env) (σ : Nat → FV → FV) (u u' : Nat) (t : T) (r : F) (L : Level) (k : Nat) :
+theorem F.dicts_sep (env : Env) (σ : Nat → FV → Nat → FV) (u u' : Nat) (t : T) (r : F) (L : Level) (k : Nat) :
     F.dicts env σ u (.sep u' t r) L k = T.top env σ u' t ++ F.dicts env σ u r L k := by
   simp [F.dicts, T.top]
 
@@ -155,7 +164,7 @@ theorem F.len_append : ∀ (f g : F), (f.append g).len = f.len + g.len
   | .own t r, g => by simp [F.append, F.len, F.len_append r g]; omega
   | .sep u t r, g => by simp [F.append, F.len, F.len_append r g]
 
-theorem F.dicts_append (env : Env) (σ : Nat → FV → FV) (u : Nat) : ∀ (f g : F) (L : Level) (k : Nat),
+theorem F.dicts_append (env : Env) (σ : Nat → FV → Nat → FV) (u : Nat) : ∀ (f g : F) (L : Level) (k : Nat),
     F.dicts env σ u (f.append g) L k = F.dicts env σ u f L k ++ F.dicts env σ u g L (k + f.len)
   | .nil, g, L, k => by simp [F.append, F.dicts, F.len]
   | .own t r, g, L, k => by
@@ -167,11 +176,13 @@ theorem F.dicts_append (env : Env) (σ : Nat → FV → FV) (u : Nat) : ∀ (f g
 
 /-! ## The denotation -/
 
-/-- the three counters a run consumes: clock reads, `uuid4()` calls, exception-extractor calls -/
+/-- the four counters a run consumes: clock reads, `uuid4()` calls, exception-extractor calls,
+field-serializer calls -/
 structure DS where
   tick : Nat
   nu : Nat
   ex : Nat
+  sc : Nat
 
 /-- result of the denotation: the forest performed, the outcome, the success fields of the
 current action afterwards, the counters afterwards, and whether every declared (typed) field was
@@ -185,20 +196,28 @@ structure R where
 
 def leafR (sepr : Bool) (d : DS) (s : Fields) (ms : MSpec) : R :=
   if sepr then
-    { f := .sep d.nu (.leaf d.tick ms) .nil, out := .ok, s := s, ds := { tick := d.tick + 1, nu := d.nu + 1, ex := d.ex },
+    { f := .sep d.nu (.leaf d.tick d.sc ms) .nil, out := .ok, s := s,
+      ds := { tick := d.tick + 1, nu := d.nu + 1, ex := d.ex, sc := d.sc + nser ms.sers },
       wf := presentOpt ms.sers ms.fields }
   else
-    { f := .own (.leaf d.tick ms) .nil, out := .ok, s := s, ds := { tick := d.tick + 1, nu := d.nu, ex := d.ex },
+    { f := .own (.leaf d.tick d.sc ms) .nil, out := .ok, s := s,
+      ds := { tick := d.tick + 1, nu := d.nu, ex := d.ex, sc := d.sc + nser ms.sers },
       wf := presentOpt ms.sers ms.fields }
+
+/-- serializer calls made by the end message of an action -/
+def endSer (sers : Option (List (String × Nat) × List (String × Nat))) (res : Outcome) : Nat :=
+  match res with
+  | .ok => nser (sers.map (·.2))
+  | _ => 0
 
 /-- the result of `with <new action of spec sp>: body` from counters `d`, given the result `r` of
 the body: one node — a tree of its own (`sepr`) or the next item of the enclosing action — whose end
 message carries the success fields or what the extractor returned for the body's exception -/
 def withR (env : Env) (sepr : Bool) (sp : Spec) (d : DS) (s : Fields) (r : R) : R :=
-  { f := if sepr then .sep d.nu (T.node sp d.tick r.ds.tick r.s r.out (extOut env r.out r.ds.ex).1 r.f) .nil
-         else .own (T.node sp d.tick r.ds.tick r.s r.out (extOut env r.out r.ds.ex).1 r.f) .nil,
+  { f := if sepr then .sep d.nu (T.node sp d.tick r.ds.tick d.sc r.ds.sc r.s r.out (extOut env r.out r.ds.ex).1 r.f) .nil
+         else .own (T.node sp d.tick r.ds.tick d.sc r.ds.sc r.s r.out (extOut env r.out r.ds.ex).1 r.f) .nil,
     out := r.out, s := s,
-    ds := { tick := r.ds.tick + 1, nu := r.ds.nu, ex := (extOut env r.out r.ds.ex).2 },
+    ds := { tick := r.ds.tick + 1, nu := r.ds.nu, ex := (extOut env r.out r.ds.ex).2, sc := r.ds.sc + endSer sp.sers r.out },
     wf := presentOpt (sp.sers.map (·.1)) sp.fields && r.wf &&
       (match r.out with | .ok => presentOpt (sp.sers.map (·.2)) r.s | _ => true) }
 
@@ -206,10 +225,10 @@ def withR (env : Env) (sepr : Bool) (sp : Spec) (d : DS) (s : Fields) (r : R) : 
 started at counters `d0` and has since performed `kids` and collected success fields `sx`: the same
 node as the `with` block — but `finish` does not raise, the outcome is `ok` -/
 def closeR (env : Env) (sepr : Bool) (sp : Spec) (d0 : DS) (s : Fields) (kids : F) (sx : Fields) (res : Outcome) (d : DS) : R :=
-  { f := if sepr then .sep d0.nu (T.node sp d0.tick d.tick sx res (extOut env res d.ex).1 kids) .nil
-         else .own (T.node sp d0.tick d.tick sx res (extOut env res d.ex).1 kids) .nil,
+  { f := if sepr then .sep d0.nu (T.node sp d0.tick d.tick d0.sc d.sc sx res (extOut env res d.ex).1 kids) .nil
+         else .own (T.node sp d0.tick d.tick d0.sc d.sc sx res (extOut env res d.ex).1 kids) .nil,
     out := .ok, s := s,
-    ds := { tick := d.tick + 1, nu := d.nu, ex := (extOut env res d.ex).2 },
+    ds := { tick := d.tick + 1, nu := d.nu, ex := (extOut env res d.ex).2, sc := d.sc + endSer sp.sers res },
     wf := match res with | .ok => presentOpt (sp.sers.map (·.2)) sx | _ => true }
 
 /-- the result of `with x: body` on the open action `x` (cf. `closeR`): the body's result `rb` is
@@ -232,7 +251,7 @@ mutual
 def denS (env : Env) (cur : Option Exc) (inAct : Bool) : Stmt → DS → Fields → R
   | .withAction task sp body, d, s =>
     withR env (task || !inAct) sp d s
-      (denB env cur true body { tick := d.tick + 1, nu := if (task || !inAct) = true then d.nu + 1 else d.nu, ex := d.ex } [])
+      (denB env cur true body { tick := d.tick + 1, nu := (if (task || !inAct) = true then d.nu + 1 else d.nu), ex := d.ex, sc := d.sc + nser (sp.sers.map (·.1)) } [])
   | .log ms, d, s => leafR (!inAct) d s ms
   | .raise i, d, s => { f := .nil, out := .raised (.user i), s := s, ds := d, wf := true }
   | .tryCatch body handler, d, s =>
@@ -256,7 +275,7 @@ def denB (env : Env) (cur : Option Exc) (inAct : Bool) : Block → DS → Fields
     | .startAs x task sp =>
       -- the explicit spelling of an action: `x = start_action(..)`, then (`denX`) its content, then `x.finish(..)`
       let r := denX env cur inAct x (task || !inAct) sp d s rest .nil []
-        { tick := d.tick + 1, nu := if (task || !inAct) = true then d.nu + 1 else d.nu, ex := d.ex }
+        { tick := d.tick + 1, nu := (if (task || !inAct) = true then d.nu + 1 else d.nu), ex := d.ex, sc := d.sc + nser (sp.sers.map (·.1)) }
       { r with wf := presentOpt (sp.sers.map (·.1)) sp.fields && r.wf }
     | st =>
       let r := denS env cur inAct st d s
@@ -303,8 +322,8 @@ def denX (env : Env) (cur : Option Exc) (inAct : Bool) (x : Nat) (sepr : Bool) (
     | .logTo y ms =>
       -- `x.log(..)` / `Message.log(action=x)` between the segments: the next item of `x`
       if y = x then
-        let r := denX env cur inAct x sepr sp d0 s rest (kids.append (.own (.leaf d.tick ms) .nil)) sx
-          { tick := d.tick + 1, nu := d.nu, ex := d.ex }
+        let r := denX env cur inAct x sepr sp d0 s rest (kids.append (.own (.leaf d.tick d.sc ms) .nil)) sx
+          { tick := d.tick + 1, nu := d.nu, ex := d.ex, sc := d.sc + nser ms.sers }
         { r with wf := presentOpt ms.sers ms.fields && r.wf }
       else { f := .nil, out := .stuck, s := s, ds := d0, wf := false }
     | .addSuccess z fs =>
@@ -371,23 +390,25 @@ open Sys Sys.C04
 
 /-! ## Effects of the primitives under the fragment's hypotheses -/
 
-/-- serializers are functions that do not raise, registered exception extractors (for any classes,
+/-- field serializers do not raise (`σ sid v k` = what serializer `sid` returns for `v` on the `k`-th
+serializer call overall: the result may depend on the call number), registered exception extractors (for any classes,
 returning any fields, possibly different ones on every call) do not raise, the destinations in `ds`
 never raise -/
-structure EnvOK (env : Env) (σ : Nat → FV → FV) (ds : List Nat) : Prop where
-  ser : ∀ sid v k, env.serialize sid v k = .ok (σ sid v)
+structure EnvOK (env : Env) (σ : Nat → FV → Nat → FV) (ds : List Nat) : Prop where
+  ser : ∀ sid v k, env.serialize sid v k = .ok (σ sid v k)
   ext : ∀ c f, env.extractor c = some f → ∀ e k, ∃ fs, f e k = .ok fs
   healthy : ∀ d ∈ ds, ∀ k, env.destFails d k = none
 
 /-- the hypothesis of the first version of these theorems (no extractor registered) is a special case -/
-theorem EnvOK.ofNoExtractor {env : Env} {σ : Nat → FV → FV} {ds : List Nat}
-    (ser : ∀ sid v k, env.serialize sid v k = .ok (σ sid v)) (ext : ∀ c, env.extractor c = none)
+theorem EnvOK.ofNoExtractor {env : Env} {σ : Nat → FV → Nat → FV} {ds : List Nat}
+    (ser : ∀ sid v k, env.serialize sid v k = .ok (σ sid v k)) (ext : ∀ c, env.extractor c = none)
     (healthy : ∀ d ∈ ds, ∀ k, env.destFails d k = none) : EnvOK env σ ds :=
   ⟨ser, fun c f h => (by rw [ext c] at h; cases h), healthy⟩
 
-/-- `w'` is `w` with the action table `acts`, `dt` more clock reads, `du` more uuids and `out`
-staged; context, destinations, global fields, program variables, extractor-call count untouched -/
-structure Eff (w w' : World) (acts : List Act) (dt du : Nat) (out : List Msg) : Prop where
+/-- `w'` is `w` with the action table `acts`, `dt` more clock reads, `du` more uuids, `dc` more
+serializer calls and `out` staged; context, destinations, global fields, program variables,
+extractor-call count untouched -/
+structure Eff (w w' : World) (acts : List Act) (dt du dc : Nat) (out : List Msg) : Prop where
   acts : w'.acts = acts
   ctx : w'.ctx = w.ctx
   tick : w'.tick = w.tick + dt
@@ -397,26 +418,27 @@ structure Eff (w w' : World) (acts : List Act) (dt du : Nat) (out : List Msg) : 
   stage : w'.stage = w.stage ++ out
   ext : w'.extCalls = w.extCalls
   vars : w'.vars = w.vars
+  sc : w'.serCalls = w.serCalls + dc
 
-theorem Eff.refl (w : World) : Eff w w w.acts 0 0 [] := ⟨rfl, rfl, rfl, rfl, rfl, rfl, by simp, rfl, rfl⟩
+theorem Eff.refl (w : World) : Eff w w w.acts 0 0 0 [] := ⟨rfl, rfl, rfl, rfl, rfl, rfl, by simp, rfl, rfl, rfl⟩
 
-theorem Eff.trans {a b c : World} {x y : List Act} {t1 t2 u1 u2 : Nat} {o1 o2 : List Msg}
-    (h1 : Eff a b x t1 u1 o1) (h2 : Eff b c y t2 u2 o2) : Eff a c y (t1 + t2) (u1 + u2) (o1 ++ o2) :=
+theorem Eff.trans {a b c : World} {x y : List Act} {t1 t2 u1 u2 s1 s2 : Nat} {o1 o2 : List Msg}
+    (h1 : Eff a b x t1 u1 s1 o1) (h2 : Eff b c y t2 u2 s2 o2) : Eff a c y (t1 + t2) (u1 + u2) (s1 + s2) (o1 ++ o2) :=
   ⟨h2.acts, h2.ctx.trans h1.ctx, by rw [h2.tick, h1.tick]; omega, by rw [h2.nu, h1.nu]; omega,
    h2.dests.trans h1.dests, h2.globals.trans h1.globals, by rw [h2.stage, h1.stage, List.append_assoc],
-   h2.ext.trans h1.ext, h2.vars.trans h1.vars⟩
+   h2.ext.trans h1.ext, h2.vars.trans h1.vars, by rw [h2.sc, h1.sc]; omega⟩
 
 /-- the world is in the fragment's configuration: only destinations from `ds`, no global fields -/
 structure WOK (w : World) (ds : List Nat) : Prop where
   dests : ∀ d ∈ w.dests, d ∈ ds
   globals : w.globals = []
 
-theorem WOK.ofEff {w w' : World} {ds : List Nat} {x : List Act} {t u : Nat} {o : List Msg}
-    (h : WOK w ds) (e : Eff w w' x t u o) : WOK w' ds :=
+theorem WOK.ofEff {w w' : World} {ds : List Nat} {x : List Act} {t u v : Nat} {o : List Msg}
+    (h : WOK w ds) (e : Eff w w' x t u v o) : WOK w' ds :=
   ⟨by rw [e.dests]; exact h.dests, by rw [e.globals]; exact h.globals⟩
 
 theorem fanOut_core (env : Env) (m : Msg) (l : List Nat) (hh : ∀ d ∈ l, ∀ k, env.destFails d k = none) (w : World) :
-    (World.fanOut env w m l).2 = [] ∧ Eff w (World.fanOut env w m l).1 w.acts 0 0 [] := by
+    (World.fanOut env w m l).2 = [] ∧ Eff w (World.fanOut env w m l).1 w.acts 0 0 0 [] := by
   induction l generalizing w with
   | nil => exact ⟨rfl, Eff.refl w⟩
   | cons d l ih =>
@@ -424,16 +446,16 @@ theorem fanOut_core (env : Env) (m : Msg) (l : List Nat) (hh : ∀ d ∈ l, ∀ 
     have hd : env.destFails d ((lookupNat w.destCalls d).getD 0) = none := hh d List.mem_cons_self _
     obtain ⟨h1, h2⟩ := ih (fun d' hd' => hh d' (List.mem_cons_of_mem _ hd')) (w.callDest env d m).1
     have hc : (w.callDest env d m).2 = none := by simp [World.callDest, hd]
-    have he : Eff w (w.callDest env d m).1 w.acts 0 0 [] := by
+    have he : Eff w (w.callDest env d m).1 w.acts 0 0 0 [] := by
       simp only [World.callDest, hd]
-      exact ⟨rfl, rfl, rfl, rfl, rfl, rfl, by simp, rfl, rfl⟩
+      exact ⟨rfl, rfl, rfl, rfl, rfl, rfl, by simp, rfl, rfl, rfl⟩
     refine ⟨by simp [h1, hc], ?_⟩
     have := he.trans h2
     rw [he.acts] at this
     simpa using this
 
-theorem eff_send {env : Env} {σ : Nat → FV → FV} {ds : List Nat} (H : EnvOK env σ ds) (w : World) (hw : WOK w ds)
-    (m : Msg) : Eff w (w.send env m) w.acts 0 0 [m] := by
+theorem eff_send {env : Env} {σ : Nat → FV → Nat → FV} {ds : List Nat} (H : EnvOK env σ ds) (w : World) (hw : WOK w ds)
+    (m : Msg) : Eff w (w.send env m) w.acts 0 0 0 [m] := by
   have hm : Fields.update m w.globals = m := by rw [hw.globals]; rfl
   unfold World.send World.deliver
   simp only [hm]
@@ -441,46 +463,9 @@ theorem eff_send {env : Env} {σ : Nat → FV → FV} {ds : List Nat} (H : EnvOK
   · obtain ⟨h1, h2⟩ := fanOut_core env m w.dests (fun d hd => H.healthy d (hw.dests d hd))
       { w with stage := w.stage ++ [m], stageAt := w.stageAt ++ [w.dests] }
     simp only [h1, ite_self, World.reportAll]
-    exact ⟨h2.acts, h2.ctx, h2.tick, h2.nu, h2.dests, h2.globals, by rw [h2.stage]; simp, h2.ext, h2.vars⟩
+    exact ⟨h2.acts, h2.ctx, h2.tick, h2.nu, h2.dests, h2.globals, by rw [h2.stage]; simp, h2.ext, h2.vars, h2.sc⟩
   · simp only [World.reportAll]
-    exact ⟨rfl, rfl, rfl, rfl, rfl, rfl, rfl, rfl, rfl⟩
-
-/-- `_MessageSerializer.serialize` with function serializers on a dict that has every declared key -/
-theorem serializeFields_ok {env : Env} {σ : Nat → FV → FV} {ds : List Nat} (H : EnvOK env σ ds)
-    (ss : List (String × Nat)) (w : World) (m : Msg) (hp : present ss m = true) :
-    ∃ k, serializeFields env w ss m = ({ w with serCalls := w.serCalls + k }, .ok (applyT σ ss m)) := by
-  induction ss generalizing w m with
-  | nil => exact ⟨0, rfl⟩
-  | cons p r ih =>
-    obtain ⟨key, sid⟩ := p
-    simp only [present, List.all_cons, Bool.and_eq_true] at hp
-    obtain ⟨h1, h2⟩ := hp
-    cases hv : m.get? key with
-    | none => simp [hv] at h1
-    | some v =>
-      have hp' : present r (m.set key (σ sid v)) = true := by
-        simp only [present, List.all_eq_true] at h2 ⊢
-        intro q hq
-        have := h2 q hq
-        by_cases e : q.1 = key
-        · rw [e, Fields.get?_set_self]; rfl
-        · rw [Fields.get?_set_ne _ _ _ _ e]; exact this
-      obtain ⟨k, hk⟩ := ih { w with serCalls := w.serCalls + 1 } (m.set key (σ sid v)) hp'
-      refine ⟨1 + k, ?_⟩
-      simp only [serializeFields, hv, H.ser, applyT, hk]
-      simp [Nat.add_assoc]
-
-theorem eff_loggerWrite {env : Env} {σ : Nat → FV → FV} {ds : List Nat} (H : EnvOK env σ ds) (w : World) (hw : WOK w ds)
-    (m : Msg) (sers : Option (List (String × Nat))) (hp : presentOpt sers m = true) :
-    Eff w (w.loggerWrite env m sers) w.acts 0 0 [serOpt σ sers m] := by
-  cases sers with
-  | none => exact eff_send H w hw m
-  | some ss =>
-    obtain ⟨k, hk⟩ := serializeFields_ok H ss w m hp
-    simp only [World.loggerWrite, hk, serOpt]
-    have hw' : WOK ({ w with serCalls := w.serCalls + k } : World) ds := ⟨hw.dests, hw.globals⟩
-    have := eff_send H ({ w with serCalls := w.serCalls + k } : World) hw' (applyT σ ss m)
-    exact ⟨this.acts, this.ctx, this.tick, this.nu, this.dests, this.globals, this.stage, this.ext, this.vars⟩
+    exact ⟨rfl, rfl, rfl, rfl, rfl, rfl, rfl, rfl, rfl, rfl⟩
 
 theorem present_set (ss : List (String × Nat)) (m : Fields) (k : String) (v : FV) (h : present ss m = true) :
     present ss (m.set k v) = true := by
@@ -489,6 +474,37 @@ theorem present_set (ss : List (String × Nat)) (m : Fields) (k : String) (v : F
   by_cases e : q.1 = k
   · rw [e, Fields.get?_set_self]; rfl
   · rw [Fields.get?_set_ne _ _ _ _ e]; exact h q hq
+
+/-- `_MessageSerializer.serialize` with serializers that do not raise on a dict that has every declared
+key: one call per declared field, numbered consecutively -/
+theorem serializeFields_ok {env : Env} {σ : Nat → FV → Nat → FV} {ds : List Nat} (H : EnvOK env σ ds)
+    (ss : List (String × Nat)) (w : World) (m : Msg) (hp : present ss m = true) :
+    serializeFields env w ss m = ({ w with serCalls := w.serCalls + ss.length }, .ok (applyT σ w.serCalls ss m)) := by
+  induction ss generalizing w m with
+  | nil => rfl
+  | cons p r ih =>
+    obtain ⟨key, sid⟩ := p
+    simp only [present, List.all_cons, Bool.and_eq_true] at hp
+    obtain ⟨h1, h2⟩ := hp
+    cases hv : m.get? key with
+    | none => simp [hv] at h1
+    | some v =>
+      have hp' : present r (m.set key (σ sid v w.serCalls)) = true := present_set r m key _ h2
+      have := ih { w with serCalls := w.serCalls + 1 } (m.set key (σ sid v w.serCalls)) hp'
+      simp only [serializeFields, hv, H.ser, applyT, this]
+      simp [Nat.add_assoc, Nat.add_comm 1]
+
+theorem eff_loggerWrite {env : Env} {σ : Nat → FV → Nat → FV} {ds : List Nat} (H : EnvOK env σ ds) (w : World) (hw : WOK w ds)
+    (m : Msg) (sers : Option (List (String × Nat))) (hp : presentOpt sers m = true) :
+    Eff w (w.loggerWrite env m sers) w.acts 0 0 (nser sers) [serOpt σ w.serCalls sers m] := by
+  cases sers with
+  | none => exact eff_send H w hw m
+  | some ss =>
+    have hk := serializeFields_ok H ss w m hp
+    simp only [World.loggerWrite, hk, serOpt, nser]
+    have hw' : WOK ({ w with serCalls := w.serCalls + ss.length } : World) ds := ⟨hw.dests, hw.globals⟩
+    have := eff_send H ({ w with serCalls := w.serCalls + ss.length } : World) hw' (applyT σ w.serCalls ss m)
+    exact ⟨this.acts, this.ctx, this.tick, this.nu, this.dests, this.globals, this.stage, this.ext, this.vars, this.sc⟩
 
 theorem presentOpt_set (sers : Option (List (String × Nat))) (m : Fields) (k : String) (v : FV)
     (h : presentOpt sers m = true) : presentOpt sers (m.set k v) = true := by
@@ -550,56 +566,56 @@ theorem lt_of_get {w : World} {h : Nat} {a : Act} (ha : w.acts[h]? = some a) : h
   · rw [List.getElem?_eq_none hl] at ha; cases ha
 
 section prims
-variable {env : Env} {σ : Nat → FV → FV} {ds : List Nat} (H : EnvOK env σ ds)
+variable {env : Env} {σ : Nat → FV → Nat → FV} {ds : List Nat} (H : EnvOK env σ ds)
 include H
 
 /-- `Logger.write` after steps that staged nothing -/
-theorem Eff.thenWrite {w w1 : World} {A : List Act} {dt du : Nat} (e : Eff w w1 A dt du []) (hw : WOK w ds)
+theorem Eff.thenWrite {w w1 : World} {A : List Act} {dt du : Nat} (e : Eff w w1 A dt du 0 []) (hw : WOK w ds)
     (m : Msg) (sers : Option (List (String × Nat))) (hp : presentOpt sers m = true) :
-    Eff w (w1.loggerWrite env m sers) A dt du [serOpt σ sers m] := by
+    Eff w (w1.loggerWrite env m sers) A dt du (nser sers) [serOpt σ w.serCalls sers m] := by
   have := e.trans (eff_loggerWrite H w1 (hw.ofEff e) m sers hp)
-  rw [e.acts] at this
+  rw [e.acts, e.sc] at this
   simpa using this
 
-theorem Eff.thenWrite' {w w1 : World} {A : List Act} {dt du : Nat} (e : Eff w w1 A dt du []) (hw : WOK w ds)
-    (m : Msg) (sers : Option (List (String × Nat))) (hp : presentOpt sers m = true) (out : Msg)
-    (ho : out = serOpt σ sers m) : Eff w (w1.loggerWrite env m sers) A dt du [out] :=
-  ho ▸ Eff.thenWrite H e hw m sers hp
+theorem Eff.thenWrite' {w w1 : World} {A : List Act} {dt du : Nat} (e : Eff w w1 A dt du 0 []) (hw : WOK w ds)
+    (m : Msg) (sers : Option (List (String × Nat))) (hp : presentOpt sers m = true) (out : Msg) (dc : Nat)
+    (ho : out = serOpt σ w.serCalls sers m) (hd : dc = nser sers) : Eff w (w1.loggerWrite env m sers) A dt du dc [out] :=
+  ho ▸ hd ▸ Eff.thenWrite H e hw m sers hp
 
 /-- a message logged while action `c` is current -/
 theorem eff_log_in (w : World) (hw : WOK w ds) (c : Nat) (a : Act) (hc : w.ctx = some c) (ha : w.acts[c]? = some a)
     (ms : MSpec) (hp : presentOpt ms.sers ms.fields = true) :
-    Eff w (w.logMessage env ms) (w.acts.set c { a with last := a.last + 1 }) 1 0
-      [leafDict σ a.uuid (a.level ++ [a.last + 1]) w.tick ms] := by
+    Eff w (w.logMessage env ms) (w.acts.set c { a with last := a.last + 1 }) 1 0 (nser ms.sers)
+      [leafDict σ a.uuid (a.level ++ [a.last + 1]) w.tick w.serCalls ms] := by
   have hp' := presentOpt_set _ _ "message_type" (.str ms.mtype) (presentOpt_set _ _ "task_level" (.lvl (a.level ++ [a.last + 1]))
     (presentOpt_set _ _ "task_uuid" (.uuid a.uuid) (presentOpt_set _ _ "timestamp" (.ts w.tick) hp)))
   simp only [World.logMessage, World.currentOrFresh, hc, World.buildLog, World.clock, World.nextLevel, ha,
     Option.map_some, Option.getD_some]
   refine Eff.thenWrite H (A := w.acts.set c { a with last := a.last + 1 }) (dt := 1) (du := 0) ?_ hw _ _ hp'
-  exact ⟨rfl, hc.symm, rfl, rfl, rfl, rfl, by simp, rfl, rfl⟩
+  exact ⟨rfl, hc.symm, rfl, rfl, rfl, rfl, by simp, rfl, rfl, rfl⟩
 
 /-- `x.log(..)` / `Message.log(action=x)` on the handle of an action, whatever the current action is -/
 theorem eff_logTo (w : World) (hw : WOK w ds) (h : Nat) (a : Act) (ha : w.acts[h]? = some a)
     (ms : MSpec) (hp : presentOpt ms.sers ms.fields = true) :
-    Eff w (w.logTo env h ms) (w.acts.set h { a with last := a.last + 1 }) 1 0
-      [leafDict σ a.uuid (a.level ++ [a.last + 1]) w.tick ms] := by
+    Eff w (w.logTo env h ms) (w.acts.set h { a with last := a.last + 1 }) 1 0 (nser ms.sers)
+      [leafDict σ a.uuid (a.level ++ [a.last + 1]) w.tick w.serCalls ms] := by
   have hp' := presentOpt_set _ _ "message_type" (.str ms.mtype) (presentOpt_set _ _ "task_level" (.lvl (a.level ++ [a.last + 1]))
     (presentOpt_set _ _ "task_uuid" (.uuid a.uuid) (presentOpt_set _ _ "timestamp" (.ts w.tick) hp)))
   simp only [World.logTo, World.buildLog, World.clock, World.nextLevel, ha, Option.map_some, Option.getD_some]
   refine Eff.thenWrite H (A := w.acts.set h { a with last := a.last + 1 }) (dt := 1) (du := 0) ?_ hw _ _ hp'
-  exact ⟨rfl, rfl, rfl, rfl, rfl, rfl, by simp, rfl, rfl⟩
+  exact ⟨rfl, rfl, rfl, rfl, rfl, rfl, by simp, rfl, rfl, rfl⟩
 
 /-- a message logged outside any action: a fresh one-message task -/
 theorem eff_log_out (w : World) (hw : WOK w ds) (hc : w.ctx = none) (ms : MSpec)
     (hp : presentOpt ms.sers ms.fields = true) :
-    Eff w (w.logMessage env ms) (w.acts ++ [{ uuid := w.nextUuid, level := [], last := 1 }]) 1 1
-      [leafDict σ w.nextUuid [1] w.tick ms] := by
+    Eff w (w.logMessage env ms) (w.acts ++ [{ uuid := w.nextUuid, level := [], last := 1 }]) 1 1 (nser ms.sers)
+      [leafDict σ w.nextUuid [1] w.tick w.serCalls ms] := by
   have hp' := presentOpt_set _ _ "message_type" (.str ms.mtype) (presentOpt_set _ _ "task_level" (.lvl [1])
     (presentOpt_set _ _ "task_uuid" (.uuid w.nextUuid) (presentOpt_set _ _ "timestamp" (.ts w.tick) hp)))
   simp only [World.logMessage, World.currentOrFresh, hc, World.freshAction, World.buildLog, World.clock, World.nextLevel,
     List.getElem?_concat_length, Option.map_some, Option.getD_some, List.nil_append, Nat.zero_add]
   refine Eff.thenWrite H (A := w.acts ++ [{ uuid := w.nextUuid, level := [], last := 1 }]) (dt := 1) (du := 1) ?_ hw _ _ hp'
-  exact ⟨by simp, hc.symm, rfl, rfl, rfl, rfl, by simp, rfl, rfl⟩
+  exact ⟨by simp, hc.symm, rfl, rfl, rfl, rfl, by simp, rfl, rfl, rfl⟩
 
 /-- `write_traceback()` = one extractor consultation, then an ordinary untyped message -/
 theorem writeTraceback_eq (w : World) (e : Exc) :
@@ -610,14 +626,14 @@ theorem writeTraceback_eq (w : World) (e : Exc) :
 /-- `Action._start` of action `h` -/
 theorem eff_startRec (w : World) (hw : WOK w ds) (h : Nat) (a : Act) (ha : w.acts[h]? = some a) (fields : Fields)
     (hp : presentOpt (a.sers.map (·.1)) fields = true) :
-    Eff w (w.startRec env h fields) (w.acts.set h { a with last := a.last + 1 }) 1 0
-      [startDict σ a.uuid (a.level ++ [a.last + 1]) w.tick { atype := a.atype, fields := fields, sers := a.sers }] := by
+    Eff w (w.startRec env h fields) (w.acts.set h { a with last := a.last + 1 }) 1 0 (nser (a.sers.map (·.1)))
+      [startDict σ a.uuid (a.level ++ [a.last + 1]) w.tick w.serCalls { atype := a.atype, fields := fields, sers := a.sers }] := by
   have hp' := presentOpt_set _ _ "task_level" (.lvl (a.level ++ [a.last + 1])) (presentOpt_set _ _ "action_type" (.str a.atype)
     (presentOpt_set _ _ "task_uuid" (.uuid a.uuid) (presentOpt_set _ _ "timestamp" (.ts w.tick)
     (presentOpt_set _ _ "action_status" (.str "started") hp))))
   simp only [World.startRec, ha, World.clock, World.nextLevel]
   refine Eff.thenWrite H (A := w.acts.set h { a with last := a.last + 1 }) (dt := 1) (du := 0) ?_ hw _ _ hp'
-  exact ⟨rfl, rfl, rfl, rfl, rfl, rfl, by simp, rfl, rfl⟩
+  exact ⟨rfl, rfl, rfl, rfl, rfl, rfl, by simp, rfl, rfl, rfl⟩
 
 /-- `start_action` inside action `p`: `p.child()` + `_start` -/
 theorem eff_start_child (w : World) (hw : WOK w ds) (p : Nat) (pa : Act) (hc : w.ctx = some p) (ha : w.acts[p]? = some pa)
@@ -626,7 +642,7 @@ theorem eff_start_child (w : World) (hw : WOK w ds) (p : Nat) (pa : Act) (hc : w
     Eff w (w.startAction env false sp).1
       (w.acts.set p { pa with last := pa.last + 1 } ++
         [{ uuid := pa.uuid, level := pa.level ++ [pa.last + 1], last := 1, atype := sp.atype, sers := sp.sers }]) 1 0
-      [startDict σ pa.uuid (pa.level ++ [pa.last + 1] ++ [1]) w.tick sp] := by
+      (nser (sp.sers.map (·.1))) [startDict σ pa.uuid (pa.level ++ [pa.last + 1] ++ [1]) w.tick w.serCalls sp] := by
   have hlt := lt_of_get ha
   simp only [World.startAction, Bool.false_eq_true, if_false, hc, ha, World.nextLevel, List.length_set]
   refine ⟨trivial, ?_⟩
@@ -639,7 +655,7 @@ theorem eff_start_child (w : World) (hw : WOK w ds) (p : Nat) (pa : Act) (hc : w
         lastSlot := some (p, pa.last + 1) } : World) ⟨hw.dests, hw.globals⟩ w.acts.length
     { uuid := pa.uuid, level := pa.level ++ [pa.last + 1], atype := sp.atype, sers := sp.sers }
     (by simp) sp.fields hp
-  exact ⟨by rw [e.acts]; simp, e.ctx.trans hc.symm, e.tick, e.nu, e.dests, e.globals, e.stage, e.ext, e.vars⟩
+  exact ⟨by rw [e.acts]; simp, e.ctx.trans hc.symm, e.tick, e.nu, e.dests, e.globals, e.stage, e.ext, e.vars, e.sc⟩
 
 /-- `start_task`, or `start_action` outside any action: a fresh tree -/
 theorem eff_start_fresh (w : World) (hw : WOK w ds) (task : Bool) (hc : task = true ∨ w.ctx = none)
@@ -647,7 +663,7 @@ theorem eff_start_fresh (w : World) (hw : WOK w ds) (task : Bool) (hc : task = t
     (w.startAction env task sp).2 = w.acts.length ∧
     Eff w (w.startAction env task sp).1
       (w.acts ++ [{ uuid := w.nextUuid, level := [], last := 1, atype := sp.atype, sers := sp.sers }]) 1 1
-      [startDict σ w.nextUuid [1] w.tick sp] := by
+      (nser (sp.sers.map (·.1))) [startDict σ w.nextUuid [1] w.tick w.serCalls sp] := by
   have hn : (if task = true then none else w.ctx) = none := by
     rcases hc with h | h
     · simp [h]
@@ -660,14 +676,14 @@ theorem eff_start_fresh (w : World) (hw : WOK w ds) (task : Bool) (hc : task = t
         nextUuid := w.nextUuid + 1 } : World) ⟨hw.dests, hw.globals⟩ w.acts.length
     { uuid := w.nextUuid, level := [], atype := sp.atype, sers := sp.sers }
     (by simp) sp.fields hp
-  exact ⟨by rw [e.acts]; simp, e.ctx, e.tick, e.nu, e.dests, e.globals, e.stage, e.ext, e.vars⟩
+  exact ⟨by rw [e.acts]; simp, e.ctx, e.tick, e.nu, e.dests, e.globals, e.stage, e.ext, e.vars, e.sc⟩
 
 /-- `Action.finish(exception)` of an unfinished action (a failure consults the extractor first) -/
 theorem eff_finish (w : World) (hw : WOK w ds) (h : Nat) (a : Act) (ha : w.acts[h]? = some a) (hf : a.finished = false)
     (res : Outcome) (hres : res ≠ .stuck) (hp : res = .ok → presentOpt (a.sers.map (·.2)) a.succ = true) :
     Eff { w with extCalls := (extOut env res w.extCalls).2 } (w.finishRec env h (outcomeExc res))
-      (w.acts.set h { a with finished := true, last := a.last + 1 }) 1 0
-      [endDict env σ a.uuid (a.level ++ [a.last + 1]) w.tick a.atype a.sers a.succ (extOut env res w.extCalls).1 res] := by
+      (w.acts.set h { a with finished := true, last := a.last + 1 }) 1 0 (endSer a.sers res)
+      [endDict env σ a.uuid (a.level ++ [a.last + 1]) w.tick w.serCalls a.atype a.sers a.succ (extOut env res w.extCalls).1 res] := by
   have hlt := lt_of_get ha
   cases res with
   | stuck => exact absurd rfl hres
@@ -676,22 +692,23 @@ theorem eff_finish (w : World) (hw : WOK w ds) (h : Nat) (a : Act) (ha : w.acts[
       (presentOpt_set _ _ "task_uuid" (.uuid a.uuid) (presentOpt_set _ _ "timestamp" (.ts w.tick)
       (presentOpt_set _ _ "action_status" (.str "succeeded") (hp rfl)))))
     simp only [World.finishRec, ha, hf, outcomeExc, World.clock, World.nextLevel, List.getElem?_set_self hlt,
-      Bool.false_eq_true, if_false, endDict, extOut]
+      Bool.false_eq_true, if_false, endDict, extOut, endSer]
     refine Eff.thenWrite H (w := { w with extCalls := w.extCalls })
       (A := w.acts.set h { a with finished := true, last := a.last + 1 }) (dt := 1) (du := 0) ?_
       ⟨hw.dests, hw.globals⟩ _ _ hp'
-    exact ⟨by simp, rfl, rfl, rfl, rfl, rfl, by simp, rfl, rfl⟩
+    exact ⟨by simp, rfl, rfl, rfl, rfl, rfl, by simp, rfl, rfl, rfl⟩
   | raised e =>
     simp only [World.finishRec, ha, hf, outcomeExc, getFields_ok H.ext, World.clock, World.nextLevel,
-      List.getElem?_set_self hlt, Bool.false_eq_true, if_false, endDict, extOut]
-    have hs : ∀ m : Msg, serOpt σ (a.sers.map (fun _ => ([] : List (String × Nat)))) m = m := by
-      intro m; cases a.sers <;> rfl
+      List.getElem?_set_self hlt, Bool.false_eq_true, if_false, endDict, extOut, endSer]
+    have hs : ∀ (k : Nat) (m : Msg), serOpt σ k (a.sers.map (fun _ => ([] : List (String × Nat)))) m = m := by
+      intro k m; cases a.sers <;> rfl
+    have hn : nser (a.sers.map (fun _ => ([] : List (String × Nat)))) = 0 := by cases a.sers <;> rfl
     have hp' : ∀ m : Msg, presentOpt (a.sers.map (fun _ => ([] : List (String × Nat)))) m = true := by
       intro m; cases a.sers <;> rfl
     refine Eff.thenWrite' H (w := { w with extCalls := (extOf env e w.extCalls).2 })
       (A := w.acts.set h { a with finished := true, last := a.last + 1 }) (dt := 1) (du := 0)
-      ?_ ⟨hw.dests, hw.globals⟩ _ _ (hp' _) _ (hs _).symm
-    exact ⟨by simp, rfl, rfl, rfl, rfl, rfl, by simp, rfl, rfl⟩
+      ?_ ⟨hw.dests, hw.globals⟩ _ _ (hp' _) _ _ (hs _ _).symm hn.symm
+    exact ⟨by simp, rfl, rfl, rfl, rfl, rfl, by simp, rfl, rfl, rfl⟩
 
 end prims
 
@@ -716,9 +733,10 @@ structure Pre (ds : List Nat) (w : World) (c : Nat) (i : AI) (n : Nat) (s : Fiel
   tick : w.tick = d.tick
   nu : w.nextUuid = d.nu
   ex : w.extCalls = d.ex
+  sc : w.serCalls = d.sc
 
 /-- after running something whose denotation is `r` inside action `c` -/
-structure Post (env : Env) (σ : Nat → FV → FV) (ds : List Nat) (w w' : World) (c : Nat) (i : AI) (n : Nat) (r : R) : Prop where
+structure Post (env : Env) (σ : Nat → FV → Nat → FV) (ds : List Nat) (w w' : World) (c : Nat) (i : AI) (n : Nat) (r : R) : Prop where
   /-- exactly these dicts were staged, in this order -/
   stage : w'.stage = w.stage ++ F.dicts env σ i.uuid r.f i.level (n + 1)
   /-- the action's counter advanced by the number of direct items; it is still unfinished -/
@@ -730,16 +748,17 @@ structure Post (env : Env) (σ : Nat → FV → FV) (ds : List Nat) (w w' : Worl
   tick : w'.tick = r.ds.tick
   nu : w'.nextUuid = r.ds.nu
   ex : w'.extCalls = r.ds.ex
+  sc : w'.serCalls = r.ds.sc
   wok : WOK w' ds
 
-theorem Post.pre {env : Env} {σ : Nat → FV → FV} {ds : List Nat} {w w' : World} {c : Nat} {i : AI} {n : Nat} {r : R}
+theorem Post.pre {env : Env} {σ : Nat → FV → Nat → FV} {ds : List Nat} {w w' : World} {c : Nat} {i : AI} {n : Nat} {r : R}
     (p : Post env σ ds w w' c i n r) (hc : w.ctx = some c) : Pre ds w' c i (n + r.f.len) r.s r.ds :=
-  ⟨p.wok, p.good, p.ctx.trans hc, p.tick, p.nu, p.ex⟩
+  ⟨p.wok, p.good, p.ctx.trans hc, p.tick, p.nu, p.ex, p.sc⟩
 
-theorem Post.trans' {env : Env} {σ : Nat → FV → FV} {ds : List Nat} {w w1 w2 : World} {c : Nat} {i : AI} {n : Nat}
+theorem Post.trans' {env : Env} {σ : Nat → FV → Nat → FV} {ds : List Nat} {w w1 w2 : World} {c : Nat} {i : AI} {n : Nat}
     {r1 r2 : R} (h1 : Post env σ ds w w1 c i n r1) (h2 : Post env σ ds w1 w2 c i (n + r1.f.len) r2) (b : Bool) :
     Post env σ ds w w2 c i n { f := r1.f.append r2.f, out := r2.out, s := r2.s, ds := r2.ds, wf := b } := by
-  refine ⟨?_, ?_, ?_, Nat.le_trans h1.grow h2.grow, h2.ctx.trans h1.ctx, h2.tick, h2.nu, h2.ex, h2.wok⟩
+  refine ⟨?_, ?_, ?_, Nat.le_trans h1.grow h2.grow, h2.ctx.trans h1.ctx, h2.tick, h2.nu, h2.ex, h2.sc, h2.wok⟩
   · have e : n + r1.f.len + 1 = n + 1 + r1.f.len := by omega
     rw [h2.stage, h1.stage, F.dicts_append, List.append_assoc, e]
   · have := h2.good
@@ -748,43 +767,44 @@ theorem Post.trans' {env : Env} {σ : Nat → FV → FV} {ds : List Nat} {w w1 w
     rw [h2.frame h (Nat.lt_of_lt_of_le hh h1.grow) hne, h1.frame h hh hne]
 
 /-- the extractor-call count of the starting world is not part of what `Post` says about it -/
-theorem Post.ofExt {env : Env} {σ : Nat → FV → FV} {ds : List Nat} {w w' : World} {c : Nat} {i : AI} {n : Nat} {r : R} {k : Nat}
+theorem Post.ofExt {env : Env} {σ : Nat → FV → Nat → FV} {ds : List Nat} {w w' : World} {c : Nat} {i : AI} {n : Nat} {r : R} {k : Nat}
     (p : Post env σ ds { w with extCalls := k } w' c i n r) : Post env σ ds w w' c i n r :=
-  ⟨p.stage, p.good, p.frame, p.grow, p.ctx, p.tick, p.nu, p.ex, p.wok⟩
+  ⟨p.stage, p.good, p.frame, p.grow, p.ctx, p.tick, p.nu, p.ex, p.sc, p.wok⟩
 
 /-- nothing happened (`raise`, `probe`) -/
-theorem Post.same {env : Env} {σ : Nat → FV → FV} {ds : List Nat} {w w' : World} {c : Nat} {i : AI} {n : Nat} {s : Fields} {d : DS}
+theorem Post.same {env : Env} {σ : Nat → FV → Nat → FV} {ds : List Nat} {w w' : World} {c : Nat} {i : AI} {n : Nat} {s : Fields} {d : DS}
     (pre : Pre ds w c i n s d) (ha : w'.acts = w.acts) (hs : w'.stage = w.stage) (hc : w'.ctx = w.ctx) (ht : w'.tick = w.tick)
-    (hn : w'.nextUuid = w.nextUuid) (hx : w'.extCalls = w.extCalls) (hd : w'.dests = w.dests) (hg : w'.globals = w.globals)
-    (o : Outcome) (b : Bool) :
+    (hn : w'.nextUuid = w.nextUuid) (hx : w'.extCalls = w.extCalls) (hsc : w'.serCalls = w.serCalls) (hd : w'.dests = w.dests)
+    (hg : w'.globals = w.globals) (o : Outcome) (b : Bool) :
     Post env σ ds w w' c i n { f := .nil, out := o, s := s, ds := d, wf := b } :=
   ⟨by simp [F.dicts, hs], by simpa [F.len, ha] using pre.good, fun h _ _ => by rw [ha], Nat.le_of_eq (by rw [ha]), hc, ht.trans pre.tick,
-   hn.trans pre.nu, hx.trans pre.ex, ⟨by rw [hd]; exact pre.wok.dests, by rw [hg]; exact pre.wok.globals⟩⟩
+   hn.trans pre.nu, hx.trans pre.ex, hsc.trans pre.sc, ⟨by rw [hd]; exact pre.wok.dests, by rw [hg]; exact pre.wok.globals⟩⟩
 
 /-- what the induction establishes for a statement / block with denotation `r` -/
-def Emits (env : Env) (σ : Nat → FV → FV) (ds : List Nat) (run : World → World × Outcome) (den : DS → Fields → R) : Prop :=
+def Emits (env : Env) (σ : Nat → FV → Nat → FV) (ds : List Nat) (run : World → World × Outcome) (den : DS → Fields → R) : Prop :=
   ∀ (w : World) (c : Nat) (i : AI) (n : Nat) (s : Fields) (d : DS), Pre ds w c i n s d → (den d s).wf = true →
     Post env σ ds w (run w).1 c i n (den d s) ∧ (run w).2 = (den d s).out ∧ (den d s).out ≠ .stuck
 
 /-- `with <action h>:` on an action that exists, was started and is unfinished, with `k` positions
 handed out and success fields `sx`: enter, body, exit, `finish` (a failure consults the extractor
 first). -/
-theorem run_handle {env : Env} {σ : Nat → FV → FV} {ds : List Nat} (H : EnvOK env σ ds) {run : World → World × Outcome}
+theorem run_handle {env : Env} {σ : Nat → FV → Nat → FV} {ds : List Nat} (H : EnvOK env σ ds) {run : World → World × Outcome}
     {den : DS → Fields → R} (hb : Emits env σ ds run den) (W1 : World) (h : Nat) (i' : AI) (k : Nat) (sx : Fields) (d1 : DS)
     (hw : WOK W1 ds) (hA : W1.acts[h]? = some (i'.act k sx)) (ht : W1.tick = d1.tick) (hn : W1.nextUuid = d1.nu)
-    (hx : W1.extCalls = d1.ex) (hwf : (den d1 sx).wf = true)
+    (hx : W1.extCalls = d1.ex) (hsc : W1.serCalls = d1.sc) (hwf : (den d1 sx).wf = true)
     (hps : (den d1 sx).out = .ok → presentOpt (i'.sers.map (·.2)) (den d1 sx).s = true) :
     let W2 := (withBlock env W1 h run).1
     let rb := den d1 sx
     W2.stage = W1.stage ++ (F.dicts env σ i'.uuid rb.f i'.level (k + 1) ++
-      [endDict env σ i'.uuid (i'.level ++ [k + rb.f.len + 1]) rb.ds.tick i'.atype i'.sers rb.s
+      [endDict env σ i'.uuid (i'.level ++ [k + rb.f.len + 1]) rb.ds.tick rb.ds.sc i'.atype i'.sers rb.s
         (extOut env rb.out rb.ds.ex).1 rb.out]) ∧
     (∀ g, g < W1.acts.length → g ≠ h → W2.acts[g]? = W1.acts[g]?) ∧ W1.acts.length ≤ W2.acts.length ∧ W2.ctx = W1.ctx ∧
-    W2.tick = rb.ds.tick + 1 ∧ W2.nextUuid = rb.ds.nu ∧ W2.extCalls = (extOut env rb.out rb.ds.ex).2 ∧ WOK W2 ds ∧
+    W2.tick = rb.ds.tick + 1 ∧ W2.nextUuid = rb.ds.nu ∧
+    (W2.extCalls = (extOut env rb.out rb.ds.ex).2 ∧ W2.serCalls = rb.ds.sc + endSer i'.sers rb.out) ∧ WOK W2 ds ∧
     (withBlock env W1 h run).2 = rb.out ∧ rb.out ≠ .stuck := by
   intro W2 rb
   have pre : Pre ds ({ W1 with ctx := some h } : World) h i' k sx d1 :=
-    ⟨⟨hw.dests, hw.globals⟩, hA, rfl, ht, hn, hx⟩
+    ⟨⟨hw.dests, hw.globals⟩, hA, rfl, ht, hn, hx, hsc⟩
   obtain ⟨post, hout, hns⟩ := hb _ _ _ _ _ _ pre hwf
   cases hrun : run ({ W1 with ctx := some h } : World) with
   | mk Wb ob =>
@@ -796,6 +816,7 @@ theorem run_handle {env : Env} {σ : Nat → FV → FV} {ds : List Nat} (H : Env
   have hft : Wf.tick = Wb.tick := by rw [hWf]
   have hfn : Wf.nextUuid = Wb.nextUuid := by rw [hWf]
   have hfx : Wf.extCalls = Wb.extCalls := by rw [hWf]
+  have hfsc : Wf.serCalls = Wb.serCalls := by rw [hWf]
   have hfc : Wf.ctx = W1.ctx := by rw [hWf]
   have hfw : WOK Wf ds := ⟨by rw [hWf]; exact post.wok.dests, by rw [hWf]; exact post.wok.globals⟩
   have hW2 : W2 = World.finishRec env Wf h (outcomeExc rb.out) := by
@@ -805,16 +826,17 @@ theorem run_handle {env : Env} {σ : Nat → FV → FV} {ds : List Nat} (H : Env
   have hxt : Wx.tick = Wf.tick := by rw [hWx]
   have hxn : Wx.nextUuid = Wf.nextUuid := by rw [hWx]
   have hxc : Wx.ctx = Wf.ctx := by rw [hWx]
+  have hxsc : Wx.serCalls = Wf.serCalls := by rw [hWx]
   have hxx : Wx.extCalls = (extOut env rb.out rb.ds.ex).2 := by rw [hWx, hfx, post.ex]
   have hxw : WOK Wx ds := ⟨by rw [hWx]; exact hfw.dests, by rw [hWx]; exact hfw.globals⟩
   have e : Eff Wx W2
-      (Wb.acts.set h { i'.act (k + rb.f.len) rb.s with finished := true, last := k + rb.f.len + 1 }) 1 0
-      [endDict env σ i'.uuid (i'.level ++ [k + rb.f.len + 1]) rb.ds.tick i'.atype i'.sers rb.s
+      (Wb.acts.set h { i'.act (k + rb.f.len) rb.s with finished := true, last := k + rb.f.len + 1 }) 1 0 (endSer i'.sers rb.out)
+      [endDict env σ i'.uuid (i'.level ++ [k + rb.f.len + 1]) rb.ds.tick rb.ds.sc i'.atype i'.sers rb.s
         (extOut env rb.out rb.ds.ex).1 rb.out] := by
     have := eff_finish H Wf hfw h (i'.act (k + rb.f.len) rb.s) (by rw [hfa]; exact post.good) rfl rb.out hns hps
-    rw [← hWx, ← hW2, hft, post.tick, hfa, hfx, post.ex] at this
+    rw [← hWx, ← hW2, hft, post.tick, hfa, hfx, post.ex, hfsc, post.sc] at this
     simpa only [AI.act] using this
-  refine ⟨?_, ?_, ?_, (e.ctx.trans hxc).trans hfc, ?_, ?_, e.ext.trans hxx, WOK.ofEff hxw e, ?_, hns⟩
+  refine ⟨?_, ?_, ?_, (e.ctx.trans hxc).trans hfc, ?_, ?_, ⟨e.ext.trans hxx, by rw [e.sc, hxsc, hfsc, post.sc]⟩, WOK.ofEff hxw e, ?_, hns⟩
   · rw [e.stage, hxs, hfs, post.stage]
     simp only [List.append_assoc]
     rfl
@@ -829,21 +851,22 @@ theorem run_handle {env : Env} {σ : Nat → FV → FV} {ds : List Nat} (H : Env
 
 /-- the part of `with <new action>:` after the action `h` has been created and started:
 enter, body, exit, `finish`.  `A` = the action table before `h` was appended. -/
-theorem run_action {env : Env} {σ : Nat → FV → FV} {ds : List Nat} (H : EnvOK env σ ds) {run : World → World × Outcome}
+theorem run_action {env : Env} {σ : Nat → FV → Nat → FV} {ds : List Nat} (H : EnvOK env σ ds) {run : World → World × Outcome}
     {den : DS → Fields → R} (hb : Emits env σ ds run den) (W1 : World) (A : List Act) (i' : AI) (d1 : DS)
     (hw : WOK W1 ds) (hA : W1.acts = A ++ [i'.act 1 []]) (ht : W1.tick = d1.tick) (hn : W1.nextUuid = d1.nu)
-    (hx : W1.extCalls = d1.ex) (hwf : (den d1 []).wf = true)
+    (hx : W1.extCalls = d1.ex) (hsc : W1.serCalls = d1.sc) (hwf : (den d1 []).wf = true)
     (hps : (den d1 []).out = .ok → presentOpt (i'.sers.map (·.2)) (den d1 []).s = true) :
     let W2 := (withBlock env W1 A.length run).1
     let rb := den d1 []
     W2.stage = W1.stage ++ (F.dicts env σ i'.uuid rb.f i'.level 2 ++
-      [endDict env σ i'.uuid (i'.level ++ [rb.f.len + 2]) rb.ds.tick i'.atype i'.sers rb.s (extOut env rb.out rb.ds.ex).1 rb.out]) ∧
+      [endDict env σ i'.uuid (i'.level ++ [rb.f.len + 2]) rb.ds.tick rb.ds.sc i'.atype i'.sers rb.s (extOut env rb.out rb.ds.ex).1 rb.out]) ∧
     (∀ h, h < A.length → W2.acts[h]? = A[h]?) ∧ A.length + 1 ≤ W2.acts.length ∧ W2.ctx = W1.ctx ∧
-    W2.tick = rb.ds.tick + 1 ∧ W2.nextUuid = rb.ds.nu ∧ W2.extCalls = (extOut env rb.out rb.ds.ex).2 ∧ WOK W2 ds ∧
+    W2.tick = rb.ds.tick + 1 ∧ W2.nextUuid = rb.ds.nu ∧
+    (W2.extCalls = (extOut env rb.out rb.ds.ex).2 ∧ W2.serCalls = rb.ds.sc + endSer i'.sers rb.out) ∧ WOK W2 ds ∧
     (withBlock env W1 A.length run).2 = rb.out ∧ rb.out ≠ .stuck := by
   intro W2 rb
   obtain ⟨r1, r2, r3, r4, r5, r6, r7, r8, r9, r10⟩ :=
-    run_handle H hb W1 A.length i' 1 [] d1 hw (by simp [hA]) ht hn hx hwf hps
+    run_handle H hb W1 A.length i' 1 [] d1 hw (by simp [hA]) ht hn hx hsc hwf hps
   have e1 : 1 + rb.f.len + 1 = rb.f.len + 2 := by omega
   have hlen : W1.acts.length = A.length + 1 := by simp [hA]
   refine ⟨?_, ?_, ?_, r4, r5, r6, r7, r8, r9, r10⟩
@@ -853,25 +876,26 @@ theorem run_action {env : Env} {σ : Nat → FV → FV} {ds : List Nat} (H : Env
   · rw [← hlen]; exact r3
 
 /-- one message logged in the current action -/
-theorem post_leaf {env : Env} {σ : Nat → FV → FV} {ds : List Nat} {w w' : World} {c : Nat} {i : AI} {n : Nat} {s : Fields} {d : DS}
+theorem post_leaf {env : Env} {σ : Nat → FV → Nat → FV} {ds : List Nat} {w w' : World} {c : Nat} {i : AI} {n : Nat} {s : Fields} {d : DS}
     (pre : Pre ds w c i n s d) (ms : MSpec)
-    (e : Eff w w' (w.acts.set c { i.act n s with last := (i.act n s).last + 1 }) 1 0
-      [leafDict σ (i.act n s).uuid ((i.act n s).level ++ [(i.act n s).last + 1]) w.tick ms]) :
+    (e : Eff w w' (w.acts.set c { i.act n s with last := (i.act n s).last + 1 }) 1 0 (nser ms.sers)
+      [leafDict σ (i.act n s).uuid ((i.act n s).level ++ [(i.act n s).last + 1]) w.tick w.serCalls ms]) :
     Post env σ ds w w' c i n (leafR false d s ms) := by
   have hlt := lt_of_get pre.good
-  refine ⟨?_, ?_, ?_, ?_, e.ctx, ?_, ?_, ?_, pre.wok.ofEff e⟩
-  · rw [e.stage, pre.tick]; simp [leafR, F.dicts, T.dicts, AI.act]
+  refine ⟨?_, ?_, ?_, ?_, e.ctx, ?_, ?_, ?_, ?_, pre.wok.ofEff e⟩
+  · rw [e.stage, pre.tick, pre.sc]; simp [leafR, F.dicts, T.dicts, AI.act]
   · rw [e.acts, List.getElem?_set_self hlt]; simp [leafR, F.len, AI.act]
   · intro h _ hne; rw [e.acts, List.getElem?_set_ne (Ne.symm hne)]
   · rw [e.acts, List.length_set]; exact Nat.le_refl _
   · rw [e.tick, pre.tick]; rfl
   · rw [e.nu, pre.nu]; rfl
   · rw [e.ext, pre.ex]; rfl
+  · rw [e.sc, pre.sc]; rfl
 
 theorem denS_with (env : Env) (cur : Option Exc) (inAct task : Bool) (sp : Spec) (body : Block) (d : DS) (s : Fields) :
     denS env cur inAct (.withAction task sp body) d s =
       withR env (task || !inAct) sp d s
-        (denB env cur true body { tick := d.tick + 1, nu := if (task || !inAct) = true then d.nu + 1 else d.nu, ex := d.ex } []) := by
+        (denB env cur true body { tick := d.tick + 1, nu := if (task || !inAct) = true then d.nu + 1 else d.nu, ex := d.ex, sc := d.sc + nser (sp.sers.map (·.1)) } []) := by
   simp only [denS]
 
 theorem denS_try (env : Env) (cur : Option Exc) (inAct : Bool) (body handler : Block) (d : DS) (s : Fields) :
@@ -910,10 +934,10 @@ theorem Stmt.start_or (st : Stmt) :
 theorem denB_start (env : Env) (cur : Option Exc) (inAct : Bool) (x : Nat) (task : Bool) (sp : Spec) (rest : Block) (d : DS) (s : Fields) :
     denB env cur inAct (.cons (.startAs x task sp) rest) d s =
       { denX env cur inAct x (task || !inAct) sp d s rest .nil []
-          { tick := d.tick + 1, nu := if (task || !inAct) = true then d.nu + 1 else d.nu, ex := d.ex } with
+          { tick := d.tick + 1, nu := if (task || !inAct) = true then d.nu + 1 else d.nu, ex := d.ex, sc := d.sc + nser (sp.sers.map (·.1)) } with
         wf := presentOpt (sp.sers.map (·.1)) sp.fields &&
           (denX env cur inAct x (task || !inAct) sp d s rest .nil []
-            { tick := d.tick + 1, nu := if (task || !inAct) = true then d.nu + 1 else d.nu, ex := d.ex }).wf } := by
+            { tick := d.tick + 1, nu := if (task || !inAct) = true then d.nu + 1 else d.nu, ex := d.ex, sc := d.sc + nser (sp.sers.map (·.1)) }).wf } := by
   simp only [denB]
 
 /-- result of `denX` on anything that is not the explicit spelling -/
@@ -956,11 +980,11 @@ theorem denX_finish (env : Env) (cur : Option Exc) (inAct : Bool) (x : Nat) (sep
 theorem denX_logTo (env : Env) (cur : Option Exc) (inAct : Bool) (x : Nat) (sepr : Bool) (sp : Spec) (d0 : DS) (s : Fields)
     (ms : MSpec) (rest : Block) (kids : F) (sx : Fields) (d : DS) :
     denX env cur inAct x sepr sp d0 s (.cons (.logTo x ms) rest) kids sx d =
-      { denX env cur inAct x sepr sp d0 s rest (kids.append (.own (.leaf d.tick ms) .nil)) sx
-          { tick := d.tick + 1, nu := d.nu, ex := d.ex } with
+      { denX env cur inAct x sepr sp d0 s rest (kids.append (.own (.leaf d.tick d.sc ms) .nil)) sx
+          { tick := d.tick + 1, nu := d.nu, ex := d.ex, sc := d.sc + nser ms.sers } with
         wf := presentOpt ms.sers ms.fields &&
-          (denX env cur inAct x sepr sp d0 s rest (kids.append (.own (.leaf d.tick ms) .nil)) sx
-            { tick := d.tick + 1, nu := d.nu, ex := d.ex }).wf } := by
+          (denX env cur inAct x sepr sp d0 s rest (kids.append (.own (.leaf d.tick d.sc ms) .nil)) sx
+            { tick := d.tick + 1, nu := d.nu, ex := d.ex, sc := d.sc + nser ms.sers }).wf } := by
   simp only [denX, if_true]
 
 theorem denX_addSucc (env : Env) (cur : Option Exc) (inAct : Bool) (x : Nat) (sepr : Bool) (sp : Spec) (d0 : DS) (s : Fields)
@@ -1003,7 +1027,7 @@ theorem execS_with_eq (env : Env) (cur : Option Exc) (w : World) (task : Bool) (
   simp only [execS]
 
 /-- `with start_action(..)/start_task(..): body` inside an action -/
-theorem emits_with {env : Env} {σ : Nat → FV → FV} {ds : List Nat} (H : EnvOK env σ ds) (cur : Option Exc) (task : Bool)
+theorem emits_with {env : Env} {σ : Nat → FV → Nat → FV} {ds : List Nat} (H : EnvOK env σ ds) (cur : Option Exc) (task : Bool)
     (sp : Spec) (body : Block) (hb : Emits env σ ds (fun w => execB env cur w body) (denB env cur true body)) :
     Emits env σ ds (fun w => execS env cur w (.withAction task sp body)) (denS env cur true (.withAction task sp body)) := by
   intro w c i n s d pre hwf
@@ -1023,13 +1047,13 @@ theorem emits_with {env : Env} {σ : Nat → FV → FV} {ds : List Nat} (H : Env
     subst hh
     have hAl : (w.acts.set c { i.act n s with last := (i.act n s).last + 1 }).length = w.acts.length := List.length_set
     have ra := run_action H hb W1 (w.acts.set c { i.act n s with last := (i.act n s).last + 1 })
-      { uuid := i.uuid, level := i.level ++ [n + 1], atype := sp.atype, sers := sp.sers } { tick := d.tick + 1, nu := d.nu, ex := d.ex }
-      (pre.wok.ofEff e) e.acts (by rw [e.tick, pre.tick]) (by rw [e.nu, pre.nu]; rfl) (by rw [e.ext, pre.ex]) hwf2
+      { uuid := i.uuid, level := i.level ++ [n + 1], atype := sp.atype, sers := sp.sers } { tick := d.tick + 1, nu := d.nu, ex := d.ex, sc := d.sc + nser (sp.sers.map (·.1)) }
+      (pre.wok.ofEff e) e.acts (by rw [e.tick, pre.tick]) (by rw [e.nu, pre.nu]; rfl) (by rw [e.ext, pre.ex]) (by rw [e.sc, pre.sc]) hwf2
       (fun ho => by simpa [ho] using hps)
     rw [hAl] at ra
     obtain ⟨r1, r2, r3, r4, r5, r6, rx, r7, r8, r9⟩ := ra
-    refine ⟨⟨?_, ?_, ?_, ?_, r4.trans e.ctx, r5, r6, rx, r7⟩, r8, r9⟩
-    · rw [r1, e.stage, pre.tick]
+    refine ⟨⟨?_, ?_, ?_, ?_, r4.trans e.ctx, r5, r6, rx.1, rx.2, r7⟩, r8, r9⟩
+    · rw [r1, e.stage, pre.tick, pre.sc]
       simp [F.dicts, T.dicts, AI.act, List.append_assoc]
     · rw [r2 c hlt, List.getElem?_set_self hlt]
       simp [F.len, AI.act]
@@ -1046,12 +1070,12 @@ theorem emits_with {env : Env} {σ : Nat → FV → FV} {ds : List Nat} (H : Env
     simp only at hh e
     subst hh
     have ra := run_action H hb W1 w.acts
-      { uuid := w.nextUuid, level := [], atype := sp.atype, sers := sp.sers } { tick := d.tick + 1, nu := d.nu + 1, ex := d.ex }
-      (pre.wok.ofEff e) e.acts (by rw [e.tick, pre.tick]) (by rw [e.nu, pre.nu]) (by rw [e.ext, pre.ex]) hwf2
+      { uuid := w.nextUuid, level := [], atype := sp.atype, sers := sp.sers } { tick := d.tick + 1, nu := d.nu + 1, ex := d.ex, sc := d.sc + nser (sp.sers.map (·.1)) }
+      (pre.wok.ofEff e) e.acts (by rw [e.tick, pre.tick]) (by rw [e.nu, pre.nu]) (by rw [e.ext, pre.ex]) (by rw [e.sc, pre.sc]) hwf2
       (fun ho => by simpa [ho] using hps)
     obtain ⟨r1, r2, r3, r4, r5, r6, rx, r7, r8, r9⟩ := ra
-    refine ⟨⟨?_, ?_, ?_, ?_, r4.trans e.ctx, r5, r6, rx, r7⟩, r8, r9⟩
-    · rw [r1, e.stage, pre.tick, pre.nu]
+    refine ⟨⟨?_, ?_, ?_, ?_, r4.trans e.ctx, r5, r6, rx.1, rx.2, r7⟩, r8, r9⟩
+    · rw [r1, e.stage, pre.tick, pre.nu, pre.sc]
       simp [F.dicts, T.dicts, T.rootLevel, List.append_assoc]
     · rw [r2 c hlt]
       simpa [F.len] using pre.good
@@ -1060,7 +1084,7 @@ theorem emits_with {env : Env} {σ : Nat → FV → FV} {ds : List Nat} (H : Env
     · exact Nat.le_of_succ_le r3
 
 /-- sequencing: `first` ran to a normal end, then `second` -/
-theorem emits_seq {env : Env} {σ : Nat → FV → FV} {ds : List Nat} {w w1 : World} {c : Nat} {i : AI} {n : Nat} {r1 : R}
+theorem emits_seq {env : Env} {σ : Nat → FV → Nat → FV} {ds : List Nat} {w w1 : World} {c : Nat} {i : AI} {n : Nat} {r1 : R}
     {run2 : World → World × Outcome} {den2 : DS → Fields → R} (hc : w.ctx = some c)
     (p1 : Post env σ ds w w1 c i n r1) (h2 : Emits env σ ds run2 den2) (b : Bool) (hwf2 : (den2 r1.ds r1.s).wf = true) :
     Post env σ ds w (run2 w1).1 c i n
@@ -1085,7 +1109,7 @@ theorem AI.sub_sers (i : AI) (n : Nat) (sepr : Bool) (sp : Spec) (d0 : DS) : (i.
   cases sepr <;> rfl
 
 /-- the dicts of the node, as an item of the enclosing action or as a tree of its own -/
-theorem dicts_sub (env : Env) (σ : Nat → FV → FV) (i : AI) (n : Nat) (sepr : Bool) (sp : Spec) (d0 : DS) (t : T)
+theorem dicts_sub (env : Env) (σ : Nat → FV → Nat → FV) (i : AI) (n : Nat) (sepr : Bool) (sp : Spec) (d0 : DS) (t : T)
     (ht : t.rootLevel = []) :
     F.dicts env σ i.uuid (if sepr = true then F.sep d0.nu t .nil else F.own t .nil) i.level (n + 1) =
       T.dicts env σ (i.sub n sepr sp d0).uuid t (i.sub n sepr sp d0).level := by
@@ -1095,10 +1119,10 @@ theorem dicts_sub (env : Env) (σ : Nat → FV → FV) (i : AI) (n : Nat) (sepr 
 `x = start_action(sp)` (counters `d0`; `c` current, `n` positions handed out), the world `w` has staged
 the start message and the dicts of `kids`, the new action `h` — bound to `x` — is open with
 `1 + kids.len` positions handed out and success fields `sx`, `c` is current again -/
-structure PreX (env : Env) (σ : Nat → FV → FV) (ds : List Nat) (w0 w : World) (c : Nat) (i : AI) (n : Nat) (s : Fields)
+structure PreX (env : Env) (σ : Nat → FV → Nat → FV) (ds : List Nat) (w0 w : World) (c : Nat) (i : AI) (n : Nat) (s : Fields)
     (x h : Nat) (sepr : Bool) (sp : Spec) (d0 : DS) (kids : F) (sx : Fields) (d : DS) : Prop where
   wok : WOK w ds
-  stage : w.stage = w0.stage ++ startDict σ (i.sub n sepr sp d0).uuid ((i.sub n sepr sp d0).level ++ [1]) d0.tick sp ::
+  stage : w.stage = w0.stage ++ startDict σ (i.sub n sepr sp d0).uuid ((i.sub n sepr sp d0).level ++ [1]) d0.tick d0.sc sp ::
     F.dicts env σ (i.sub n sepr sp d0).uuid kids (i.sub n sepr sp d0).level 2
   outer : w.acts[c]? = some (i.act (if sepr = true then n else n + 1) s)
   inner : w.acts[h]? = some ((i.sub n sepr sp d0).act (1 + kids.len) sx)
@@ -1111,12 +1135,13 @@ structure PreX (env : Env) (σ : Nat → FV → FV) (ds : List Nat) (w0 w : Worl
   tick : w.tick = d.tick
   nu : w.nextUuid = d.nu
   ex : w.extCalls = d.ex
+  sc : w.serCalls = d.sc
 
 theorem outcomeExc_finRes (exc : Option Nat) : outcomeExc (finRes exc) = exc.map Exc.user := by
   cases exc <;> rfl
 
 /-- `x.finish(exc)`: the node is complete -/
-theorem postX_finish {env : Env} {σ : Nat → FV → FV} {ds : List Nat} (H : EnvOK env σ ds) {w0 w : World} {c : Nat} {i : AI}
+theorem postX_finish {env : Env} {σ : Nat → FV → Nat → FV} {ds : List Nat} (H : EnvOK env σ ds) {w0 w : World} {c : Nat} {i : AI}
     {n : Nat} {s : Fields} {x h : Nat} {sepr : Bool} {sp : Spec} {d0 : DS} {kids : F} {sx : Fields} {d : DS}
     (px : PreX env σ ds w0 w c i n s x h sepr sp d0 kids sx d) (exc : Option Nat)
     (hp : (closeR env sepr sp d0 s kids sx (finRes exc) d).wf = true) :
@@ -1137,12 +1162,13 @@ theorem postX_finish {env : Env} {σ : Nat → FV → FV} {ds : List Nat} (H : E
   have hnu : wF.nextUuid = w.nextUuid + 0 := e.nu
   have hds : wF.dests = w.dests := e.dests
   have hgl : wF.globals = w.globals := e.globals
-  refine ⟨?_, ?_, ?_, ?_, hct.trans (px.ctx.trans px.ctx0.symm), ?_, ?_, ?_, ⟨by rw [hds]; exact px.wok.dests, by rw [hgl]; exact px.wok.globals⟩⟩
+  have hsc : wF.serCalls = w.serCalls + endSer (i.sub n sepr sp d0).sers (finRes exc) := e.sc
+  refine ⟨?_, ?_, ?_, ?_, hct.trans (px.ctx.trans px.ctx0.symm), ?_, ?_, ?_, ?_, ⟨by rw [hds]; exact px.wok.dests, by rw [hgl]; exact px.wok.globals⟩⟩
   · rw [hst, px.stage]
     simp only [closeR]
     rw [dicts_sub env σ i n sepr sp d0 _ rfl]
     have e1 : 1 + kids.len + 1 = kids.len + 2 := by omega
-    simp only [T.dicts, AI.act, AI.sub_atype, AI.sub_sers, e1, px.tick, px.ex, List.append_assoc, List.cons_append]
+    simp only [T.dicts, AI.act, AI.sub_atype, AI.sub_sers, e1, px.tick, px.ex, px.sc, List.append_assoc, List.cons_append]
   · rw [e.acts, List.getElem?_set_ne hne, px.outer]
     cases sepr <;> simp [closeR, F.len]
   · intro g hg hgc
@@ -1153,9 +1179,10 @@ theorem postX_finish {env : Env} {σ : Nat → FV → FV} {ds : List Nat} (H : E
   · rw [htk, px.tick]; rfl
   · rw [hnu, px.nu]; rfl
   · rw [e.ext]; simp only [closeR, px.ex]
+  · rw [hsc, px.sc, AI.sub_sers]; rfl
 
 /-- a context segment (`with x.context(): body` / `x.run(lambda: body)`) whose body ends normally -/
-theorem preX_segment {env : Env} {σ : Nat → FV → FV} {ds : List Nat} {run : World → World × Outcome}
+theorem preX_segment {env : Env} {σ : Nat → FV → Nat → FV} {ds : List Nat} {run : World → World × Outcome}
     {den : DS → Fields → R} (hb : Emits env σ ds run den) {w0 w : World} {c : Nat} {i : AI}
     {n : Nat} {s : Fields} {x h : Nat} {sepr : Bool} {sp : Spec} {d0 : DS} {kids : F} {sx : Fields} {d : DS}
     (px : PreX env σ ds w0 w c i n s x h sepr sp d0 kids sx d) (hwf : (den d sx).wf = true) (hok : (den d sx).out = .ok)
@@ -1164,7 +1191,7 @@ theorem preX_segment {env : Env} {σ : Nat → FV → FV} {ds : List Nat} {run :
     PreX env σ ds w0 (scopedBlock w h run).1 c i n s x h sepr sp d0 (kids.append (den d sx).f) (den d sx).s (den d sx).ds := by
   have hne : h ≠ c := by have := px.new; have := px.old; omega
   have pre : Pre ds ({ w with ctx := some h } : World) h (i.sub n sepr sp d0) (1 + kids.len) sx d :=
-    ⟨⟨px.wok.dests, px.wok.globals⟩, px.inner, rfl, px.tick, px.nu, px.ex⟩
+    ⟨⟨px.wok.dests, px.wok.globals⟩, px.inner, rfl, px.tick, px.nu, px.ex, px.sc⟩
   obtain ⟨post, hout, _⟩ := hb _ _ _ _ _ _ pre hwf
   have hv' := hv ({ w with ctx := some h } : World)
   cases hrun : run ({ w with ctx := some h } : World) with
@@ -1174,7 +1201,7 @@ theorem preX_segment {env : Env} {σ : Nat → FV → FV} {ds : List Nat} {run :
   have hclt : c < w.acts.length := lt_of_get px.outer
   refine ⟨by simp only [scopedBlock, hrun, hout, hok], ?_⟩
   simp only [scopedBlock, hrun]
-  refine ⟨⟨post.wok.dests, post.wok.globals⟩, ?_, ?_, ?_, px.new, px.old, ?_, px.ctx, px.ctx0, hv'.trans px.var, post.tick, post.nu, post.ex⟩
+  refine ⟨⟨post.wok.dests, post.wok.globals⟩, ?_, ?_, ?_, px.new, px.old, ?_, px.ctx, px.ctx0, hv'.trans px.var, post.tick, post.nu, post.ex, post.sc⟩
   · have e : 1 + kids.len + 1 = 2 + kids.len := by omega
     show Wb.stage = _
     rw [post.stage]
@@ -1192,18 +1219,18 @@ theorem preX_segment {env : Env} {σ : Nat → FV → FV} {ds : List Nat} {run :
     exact px.frame g hg hgc
 
 /-- `x.log(..)` while `x` is open: its next item -/
-theorem preX_logTo {env : Env} {σ : Nat → FV → FV} {ds : List Nat} (H : EnvOK env σ ds) {w0 w : World} {c : Nat} {i : AI}
+theorem preX_logTo {env : Env} {σ : Nat → FV → Nat → FV} {ds : List Nat} (H : EnvOK env σ ds) {w0 w : World} {c : Nat} {i : AI}
     {n : Nat} {s : Fields} {x h : Nat} {sepr : Bool} {sp : Spec} {d0 : DS} {kids : F} {sx : Fields} {d : DS}
     (px : PreX env σ ds w0 w c i n s x h sepr sp d0 kids sx d) (ms : MSpec) (hp : presentOpt ms.sers ms.fields = true) :
-    PreX env σ ds w0 (w.logTo env h ms) c i n s x h sepr sp d0 (kids.append (.own (.leaf d.tick ms) .nil)) sx
-      { tick := d.tick + 1, nu := d.nu, ex := d.ex } := by
+    PreX env σ ds w0 (w.logTo env h ms) c i n s x h sepr sp d0 (kids.append (.own (.leaf d.tick d.sc ms) .nil)) sx
+      { tick := d.tick + 1, nu := d.nu, ex := d.ex, sc := d.sc + nser ms.sers } := by
   have hlt := lt_of_get px.inner
   have hne : h ≠ c := by have := px.new; have := px.old; omega
   have e := eff_logTo H w px.wok h _ px.inner ms hp
-  refine ⟨px.wok.ofEff e, ?_, ?_, ?_, px.new, px.old, ?_, e.ctx.trans px.ctx, px.ctx0, ?_, ?_, ?_, ?_⟩
+  refine ⟨px.wok.ofEff e, ?_, ?_, ?_, px.new, px.old, ?_, e.ctx.trans px.ctx, px.ctx0, ?_, ?_, ?_, ?_, ?_⟩
   · have e1 : 1 + kids.len + 1 = 2 + kids.len := by omega
     rw [e.stage, px.stage, F.dicts_append]
-    simp [F.dicts, T.dicts, AI.act, e1, px.tick]
+    simp [F.dicts, T.dicts, AI.act, e1, px.tick, px.sc]
   · rw [e.acts, List.getElem?_set_ne hne]; exact px.outer
   · rw [e.acts, List.getElem?_set_self hlt, F.len_append]
     simp [AI.act, F.len, Nat.add_assoc]
@@ -1214,16 +1241,17 @@ theorem preX_logTo {env : Env} {σ : Nat → FV → FV} {ds : List Nat} (H : Env
   · rw [e.tick, px.tick]
   · rw [e.nu, px.nu]; rfl
   · rw [e.ext, px.ex]
+  · rw [e.sc, px.sc]
 
 /-- `x.add_success_fields(..)` while `x` is open -/
-theorem preX_addSucc {env : Env} {σ : Nat → FV → FV} {ds : List Nat} {w0 w : World} {c : Nat} {i : AI}
+theorem preX_addSucc {env : Env} {σ : Nat → FV → Nat → FV} {ds : List Nat} {w0 w : World} {c : Nat} {i : AI}
     {n : Nat} {s : Fields} {x h : Nat} {sepr : Bool} {sp : Spec} {d0 : DS} {kids : F} {sx : Fields} {d : DS}
     (px : PreX env σ ds w0 w c i n s x h sepr sp d0 kids sx d) (fs : Fields) :
     PreX env σ ds w0 { w with acts := w.acts.set h { (i.sub n sepr sp d0).act (1 + kids.len) sx with
         succ := ((i.sub n sepr sp d0).act (1 + kids.len) sx).succ.update fs } } c i n s x h sepr sp d0 kids (sx.update fs) d := by
   have hlt := lt_of_get px.inner
   have hne : h ≠ c := by have := px.new; have := px.old; omega
-  refine ⟨⟨px.wok.dests, px.wok.globals⟩, px.stage, ?_, ?_, px.new, px.old, ?_, px.ctx, px.ctx0, px.var, px.tick, px.nu, px.ex⟩
+  refine ⟨⟨px.wok.dests, px.wok.globals⟩, px.stage, ?_, ?_, px.new, px.old, ?_, px.ctx, px.ctx0, px.var, px.tick, px.nu, px.ex, px.sc⟩
   · show (w.acts.set h _)[c]? = _
     rw [List.getElem?_set_ne hne]; exact px.outer
   · show (w.acts.set h _)[h]? = _
@@ -1234,7 +1262,7 @@ theorem preX_addSucc {env : Env} {σ : Nat → FV → FV} {ds : List Nat} {w0 w 
     exact px.frame g hg hgc
 
 /-- `with x: body` while `x` is open: the body's items follow, the node is closed with the body's outcome -/
-theorem postX_with {env : Env} {σ : Nat → FV → FV} {ds : List Nat} (H : EnvOK env σ ds) {run : World → World × Outcome}
+theorem postX_with {env : Env} {σ : Nat → FV → Nat → FV} {ds : List Nat} (H : EnvOK env σ ds) {run : World → World × Outcome}
     {den : DS → Fields → R} (hb : Emits env σ ds run den) {w0 w : World} {c : Nat} {i : AI}
     {n : Nat} {s : Fields} {x h : Nat} {sepr : Bool} {sp : Spec} {d0 : DS} {kids : F} {sx : Fields} {d : DS}
     (px : PreX env σ ds w0 w c i n s x h sepr sp d0 kids sx d)
@@ -1246,11 +1274,11 @@ theorem postX_with {env : Env} {σ : Nat → FV → FV} {ds : List Nat} (H : Env
   have hne : h ≠ c := by have := px.new; have := px.old; omega
   simp only [closeW, Bool.and_eq_true] at hwf
   obtain ⟨r1, r2, r3, r4, r5, r6, r7, r8, r9, r10⟩ := run_handle H hb w h (i.sub n sepr sp d0) (1 + kids.len) sx d px.wok px.inner
-    px.tick px.nu px.ex hwf.1 (fun ho => by
+    px.tick px.nu px.ex px.sc hwf.1 (fun ho => by
       have := hwf.2
       simp only [closeR, ho] at this
       simpa [AI.sub_sers] using this)
-  refine ⟨⟨?_, ?_, ?_, ?_, r4.trans (px.ctx.trans px.ctx0.symm), ?_, r6, ?_, r8⟩, r9, r10⟩
+  refine ⟨⟨?_, ?_, ?_, ?_, r4.trans (px.ctx.trans px.ctx0.symm), ?_, r6, ?_, ?_, r8⟩, r9, r10⟩
   · rw [r1, px.stage]
     simp only [closeW, closeR]
     rw [dicts_sub env σ i n sepr sp d0 _ rfl]
@@ -1264,15 +1292,16 @@ theorem postX_with {env : Env} {σ : Nat → FV → FV} {ds : List Nat} (H : Env
     exact px.frame g hg hgc
   · have := px.new; omega
   · rw [r5]; rfl
-  · rw [r7]; rfl
+  · rw [r7.1]; rfl
+  · rw [r7.2, AI.sub_sers]; rfl
 
 /-- after `x = start_action(sp)` / `start_task(sp)` inside action `c` -/
-theorem preX_start {env : Env} {σ : Nat → FV → FV} {ds : List Nat} (H : EnvOK env σ ds) (cur : Option Exc) {w : World} {c : Nat}
+theorem preX_start {env : Env} {σ : Nat → FV → Nat → FV} {ds : List Nat} (H : EnvOK env σ ds) (cur : Option Exc) {w : World} {c : Nat}
     {i : AI} {n : Nat} {s : Fields} {d : DS} (pre : Pre ds w c i n s d) (x : Nat) (task : Bool) (sp : Spec)
     (hp : presentOpt (sp.sers.map (·.1)) sp.fields = true) :
     (execS env cur w (.startAs x task sp)).2 = .ok ∧
     PreX env σ ds w (execS env cur w (.startAs x task sp)).1 c i n s x w.acts.length task sp d .nil []
-      { tick := d.tick + 1, nu := if task = true then d.nu + 1 else d.nu, ex := d.ex } := by
+      { tick := d.tick + 1, nu := if task = true then d.nu + 1 else d.nu, ex := d.ex, sc := d.sc + nser (sp.sers.map (·.1)) } := by
   have hlt := lt_of_get pre.good
   refine ⟨by simp only [execS], ?_⟩
   simp only [execS]
@@ -1285,9 +1314,9 @@ theorem preX_start {env : Env} {σ : Nat → FV → FV} {ds : List Nat} (H : Env
     simp only at hh e
     subst hh
     refine ⟨⟨fun d hd => (pre.wok.ofEff e).dests d hd, (pre.wok.ofEff e).globals⟩, ?_, ?_, ?_, Nat.le_refl _, hlt, ?_,
-      e.ctx.trans pre.ctx, pre.ctx, lookupNat_setNat_self _ _ _, ?_, ?_, ?_⟩
+      e.ctx.trans pre.ctx, pre.ctx, lookupNat_setNat_self _ _ _, ?_, ?_, ?_, ?_⟩
     · show W1.stage = _
-      rw [e.stage, pre.tick]
+      rw [e.stage, pre.tick, pre.sc]
       simp [AI.sub, F.dicts, AI.act]
     · show W1.acts[c]? = _
       rw [e.acts, List.getElem?_append_left (by rw [List.length_set]; exact hlt), List.getElem?_set_self hlt]
@@ -1306,6 +1335,8 @@ theorem preX_start {env : Env} {σ : Nat → FV → FV} {ds : List Nat} (H : Env
       rw [e.nu, pre.nu]; rfl
     · show W1.extCalls = _
       rw [e.ext, pre.ex]
+    · show W1.serCalls = _
+      rw [e.sc, pre.sc]
   | true =>
     obtain ⟨hh, e⟩ := eff_start_fresh H w pre.wok true (Or.inl rfl) sp hp
     cases hst : w.startAction env true sp with
@@ -1314,9 +1345,9 @@ theorem preX_start {env : Env} {σ : Nat → FV → FV} {ds : List Nat} (H : Env
     simp only at hh e
     subst hh
     refine ⟨⟨fun d hd => (pre.wok.ofEff e).dests d hd, (pre.wok.ofEff e).globals⟩, ?_, ?_, ?_, Nat.le_refl _, hlt, ?_,
-      e.ctx.trans pre.ctx, pre.ctx, lookupNat_setNat_self _ _ _, ?_, ?_, ?_⟩
+      e.ctx.trans pre.ctx, pre.ctx, lookupNat_setNat_self _ _ _, ?_, ?_, ?_, ?_⟩
     · show W1.stage = _
-      rw [e.stage, pre.tick, pre.nu]
+      rw [e.stage, pre.tick, pre.nu, pre.sc]
       simp [AI.sub, F.dicts]
     · show W1.acts[c]? = _
       rw [e.acts, List.getElem?_append_left hlt]
@@ -1333,9 +1364,11 @@ theorem preX_start {env : Env} {σ : Nat → FV → FV} {ds : List Nat} (H : Env
       rw [e.nu, pre.nu]; rfl
     · show W1.extCalls = _
       rw [e.ext, pre.ex]
+    · show W1.serCalls = _
+      rw [e.sc, pre.sc]
 
 /-- what the induction establishes for the rest of a block after `x = start_action(sp)` -/
-def EmitsX (env : Env) (σ : Nat → FV → FV) (ds : List Nat) (cur : Option Exc) (x : Nat) (b : Block) : Prop :=
+def EmitsX (env : Env) (σ : Nat → FV → Nat → FV) (ds : List Nat) (cur : Option Exc) (x : Nat) (b : Block) : Prop :=
   ∀ (w0 w : World) (c : Nat) (i : AI) (n : Nat) (s : Fields) (h : Nat) (sepr : Bool) (sp : Spec) (d0 : DS) (kids : F) (sx : Fields)
     (d : DS), PreX env σ ds w0 w c i n s x h sepr sp d0 kids sx d →
     (denX env cur true x sepr sp d0 s b kids sx d).wf = true →
@@ -1344,7 +1377,7 @@ def EmitsX (env : Env) (σ : Nat → FV → FV) (ds : List Nat) (cur : Option Ex
       (denX env cur true x sepr sp d0 s b kids sx d).out ≠ .stuck
 
 /-- one context segment, then the rest -/
-theorem emitsX_segment {env : Env} {σ : Nat → FV → FV} {ds : List Nat} (cur : Option Exc) (x : Nat) (body rest : Block)
+theorem emitsX_segment {env : Env} {σ : Nat → FV → Nat → FV} {ds : List Nat} (cur : Option Exc) (x : Nat) (body rest : Block)
     (hb : Emits env σ ds (fun w => execB env cur w body) (denB env cur true body)) (hnb : body.binds x = false)
     (hr : EmitsX env σ ds cur x rest)
     (st : Stmt) (hst : ∀ w h, lookupNat w.vars x = some h → execS env cur w st = scopedBlock w h (fun w' => execB env cur w' body))
@@ -1370,11 +1403,11 @@ theorem emitsX_segment {env : Env} {σ : Nat → FV → FV} {ds : List Nat} (cur
     subst ok1
     simp only
     obtain ⟨p, o, nn⟩ := hr _ _ _ _ _ _ _ _ _ _ _ _ _ px1 hwf.2
-    exact ⟨⟨p.stage, p.good, p.frame, p.grow, p.ctx, p.tick, p.nu, p.ex, p.wok⟩, o, nn⟩
+    exact ⟨⟨p.stage, p.good, p.frame, p.grow, p.ctx, p.tick, p.nu, p.ex, p.sc, p.wok⟩, o, nn⟩
 
 mutual
 /-- **Emission lemma**, statements. -/
-theorem execS_emits {env : Env} {σ : Nat → FV → FV} {ds : List Nat} (H : EnvOK env σ ds) (cur : Option Exc) (inH : Bool)
+theorem execS_emits {env : Env} {σ : Nat → FV → Nat → FV} {ds : List Nat} (H : EnvOK env σ ds) (cur : Option Exc) (inH : Bool)
     (hcur : inH = true → cur.isSome = true) (st : Stmt) (hs : st.structured inH true = true) :
     Emits env σ ds (fun w => execS env cur w st) (denS env cur true st) := by
   cases st with
@@ -1391,7 +1424,7 @@ theorem execS_emits {env : Env} {σ : Nat → FV → FV} {ds : List Nat} (H : En
     have hd : denS env cur true (.raise k) d s = { f := .nil, out := .raised (.user k), s := s, ds := d, wf := true } := by
       simp only [denS]
     rw [hd]
-    exact ⟨by simpa only [execS] using Post.same pre rfl rfl rfl rfl rfl rfl rfl rfl _ _, by simp [execS], by simp⟩
+    exact ⟨by simpa only [execS] using Post.same pre rfl rfl rfl rfl rfl rfl rfl rfl rfl _ _, by simp [execS], by simp⟩
   | tryCatch body handler =>
     intro w c i n s d pre hwf
     simp only [Stmt.structured, Bool.and_eq_true] at hs
@@ -1428,7 +1461,7 @@ theorem execS_emits {env : Env} {σ : Nat → FV → FV} {ds : List Nat} (H : En
       rw [hd]
       simp only [execS, writeTraceback_eq H, pre.ex, tbR]
       have pre' : Pre ds ({ w with extCalls := (extOf env e d.ex).2 } : World) c i n s { d with ex := (extOf env e d.ex).2 } :=
-        ⟨⟨pre.wok.dests, pre.wok.globals⟩, pre.good, pre.ctx, pre.tick, pre.nu, rfl⟩
+        ⟨⟨pre.wok.dests, pre.wok.globals⟩, pre.good, pre.ctx, pre.tick, pre.nu, rfl, pre.sc⟩
       have ee := eff_log_in H _ pre'.wok c (i.act n s) pre'.ctx pre'.good (tbSpec env e (extOf env e d.ex).1) rfl
       exact ⟨(post_leaf pre' _ ee).ofExt, by simp [leafR], by simp [leafR]⟩
   | addSuccess x fs =>
@@ -1441,7 +1474,7 @@ theorem execS_emits {env : Env} {σ : Nat → FV → FV} {ds : List Nat} (H : En
         simp only [denS]
       rw [hd]
       simp only [execS, pre.ctx, pre.good]
-      refine ⟨⟨by simp [F.dicts], ?_, ?_, by simp, pre.ctx.symm, pre.tick, pre.nu, pre.ex, ⟨pre.wok.dests, pre.wok.globals⟩⟩, by simp, by simp⟩
+      refine ⟨⟨by simp [F.dicts], ?_, ?_, by simp, pre.ctx.symm, pre.tick, pre.nu, pre.ex, pre.sc, ⟨pre.wok.dests, pre.wok.globals⟩⟩, by simp, by simp⟩
       · simp [List.getElem?_set_self hlt, F.len, AI.act]
       · intro h _ hne
         simp [List.getElem?_set_ne (Ne.symm hne)]
@@ -1452,7 +1485,7 @@ theorem execS_emits {env : Env} {σ : Nat → FV → FV} {ds : List Nat} (H : En
     rw [hd]
     simp only [execS]
     refine ⟨?_, by simp, by simp⟩
-    refine Post.same pre ?_ ?_ ?_ ?_ ?_ ?_ ?_ ?_ _ _ <;> rfl
+    refine Post.same pre ?_ ?_ ?_ ?_ ?_ ?_ ?_ ?_ ?_ _ _ <;> rfl
   | startAs x task sp => simp [Stmt.structured] at hs
   | withHandle x body => simp [Stmt.structured] at hs
   | inContext x body => simp [Stmt.structured] at hs
@@ -1468,7 +1501,7 @@ theorem execS_emits {env : Env} {σ : Nat → FV → FV} {ds : List Nat} (H : En
 `i.level`, `n` positions handed out, unfinished) stages exactly `F.dicts … (n+1)` of its
 denotation, advances the action's counter by the number of direct items, leaves every other
 existing action alone, restores the context, and ends with the denotation's outcome. -/
-theorem execB_emits {env : Env} {σ : Nat → FV → FV} {ds : List Nat} (H : EnvOK env σ ds) (cur : Option Exc) (inH : Bool)
+theorem execB_emits {env : Env} {σ : Nat → FV → Nat → FV} {ds : List Nat} (H : EnvOK env σ ds) (cur : Option Exc) (inH : Bool)
     (hcur : inH = true → cur.isSome = true) (b : Block) (hs : b.structured inH true = true) :
     Emits env σ ds (fun w => execB env cur w b) (denB env cur true b) := by
   cases b with
@@ -1476,7 +1509,7 @@ theorem execB_emits {env : Env} {σ : Nat → FV → FV} {ds : List Nat} (H : En
     intro w c i n s d pre _
     have hd : denB env cur true .nil d s = { f := .nil, out := .ok, s := s, ds := d, wf := true } := by simp only [denB]
     rw [hd]
-    exact ⟨by simpa only [execB] using Post.same pre rfl rfl rfl rfl rfl rfl rfl rfl _ _, by simp [execB], by simp⟩
+    exact ⟨by simpa only [execB] using Post.same pre rfl rfl rfl rfl rfl rfl rfl rfl rfl _ _, by simp [execB], by simp⟩
   | cons st rest =>
     intro w c i n s d pre hwf
     rcases Stmt.start_or st with ⟨x, task, sp, rfl⟩ | hns
@@ -1493,7 +1526,7 @@ theorem execB_emits {env : Env} {σ : Nat → FV → FV} {ds : List Nat} (H : En
       subst ok1
       simp only
       obtain ⟨p, o, nn⟩ := execX_emits H cur inH hcur x rest hs w w1 c i n s _ _ _ _ _ _ _ px hwf.2
-      exact ⟨⟨p.stage, p.good, p.frame, p.grow, p.ctx, p.tick, p.nu, p.ex, p.wok⟩, o, nn⟩
+      exact ⟨⟨p.stage, p.good, p.frame, p.grow, p.ctx, p.tick, p.nu, p.ex, p.sc, p.wok⟩, o, nn⟩
     · rw [Block.structured_cons _ _ _ _ hns] at hs
       simp only [Bool.and_eq_true] at hs
       obtain ⟨p1, o1, n1⟩ := execS_emits H cur inH hcur st hs.1 w c i n s d pre (by
@@ -1522,7 +1555,7 @@ theorem execB_emits {env : Env} {σ : Nat → FV → FV} {ds : List Nat} (H : En
 /-- **Emission lemma**, the explicit spelling: the rest of a block after `x = start_action(sp)`, run
 while `x` is open and the enclosing action `c` is current, completes the node of `x` — same dicts as
 the `with` block's — and goes on as a structured block. -/
-theorem execX_emits {env : Env} {σ : Nat → FV → FV} {ds : List Nat} (H : EnvOK env σ ds) (cur : Option Exc) (inH : Bool)
+theorem execX_emits {env : Env} {σ : Nat → FV → Nat → FV} {ds : List Nat} (H : EnvOK env σ ds) (cur : Option Exc) (inH : Bool)
     (hcur : inH = true → cur.isSome = true) (x : Nat) (b : Block) (hs : b.structuredX inH true x = true) :
     EmitsX env σ ds cur x b := by
   cases b with
@@ -1557,7 +1590,7 @@ theorem execX_emits {env : Env} {σ : Nat → FV → FV} {ds : List Nat} (H : En
       have px1 := preX_logTo H px ms hwf.1
       simp only [execB, execS, px.var]
       obtain ⟨p, o, nn⟩ := execX_emits H cur inH hcur y rest hsr _ _ _ _ _ _ _ _ _ _ _ _ _ px1 hwf.2
-      exact ⟨⟨p.stage, p.good, p.frame, p.grow, p.ctx, p.tick, p.nu, p.ex, p.wok⟩, o, nn⟩
+      exact ⟨⟨p.stage, p.good, p.frame, p.grow, p.ctx, p.tick, p.nu, p.ex, p.sc, p.wok⟩, o, nn⟩
     | addSuccess z fs =>
       cases z with
       | none => simp [Block.structuredX] at hs
@@ -1620,9 +1653,10 @@ structure PreT (ds : List Nat) (w : World) (d : DS) : Prop where
   tick : w.tick = d.tick
   nu : w.nextUuid = d.nu
   ex : w.extCalls = d.ex
+  sc : w.serCalls = d.sc
 
 /-- after running something whose denotation is `r` outside any action: only separate trees -/
-structure PostT (env : Env) (σ : Nat → FV → FV) (ds : List Nat) (w w' : World) (r : R) : Prop where
+structure PostT (env : Env) (σ : Nat → FV → Nat → FV) (ds : List Nat) (w w' : World) (r : R) : Prop where
   stage : w'.stage = w.stage ++ F.dicts env σ 0 r.f [] 0
   flat : r.f.len = 0
   frame : ∀ h, h < w.acts.length → w'.acts[h]? = w.acts[h]?
@@ -1631,37 +1665,38 @@ structure PostT (env : Env) (σ : Nat → FV → FV) (ds : List Nat) (w w' : Wor
   tick : w'.tick = r.ds.tick
   nu : w'.nextUuid = r.ds.nu
   ex : w'.extCalls = r.ds.ex
+  sc : w'.serCalls = r.ds.sc
   wok : WOK w' ds
 
-theorem PostT.ofExt {env : Env} {σ : Nat → FV → FV} {ds : List Nat} {w w' : World} {r : R} {k : Nat}
+theorem PostT.ofExt {env : Env} {σ : Nat → FV → Nat → FV} {ds : List Nat} {w w' : World} {r : R} {k : Nat}
     (p : PostT env σ ds { w with extCalls := k } w' r) : PostT env σ ds w w' r :=
-  ⟨p.stage, p.flat, p.frame, p.grow, p.ctx, p.tick, p.nu, p.ex, p.wok⟩
+  ⟨p.stage, p.flat, p.frame, p.grow, p.ctx, p.tick, p.nu, p.ex, p.sc, p.wok⟩
 
-def EmitsT (env : Env) (σ : Nat → FV → FV) (ds : List Nat) (run : World → World × Outcome) (den : DS → Fields → R) : Prop :=
+def EmitsT (env : Env) (σ : Nat → FV → Nat → FV) (ds : List Nat) (run : World → World × Outcome) (den : DS → Fields → R) : Prop :=
   ∀ (w : World) (s : Fields) (d : DS), PreT ds w d → (den d s).wf = true →
     PostT env σ ds w (run w).1 (den d s) ∧ (run w).2 = (den d s).out ∧ (den d s).out ≠ .stuck
 
-theorem PostT.pre {env : Env} {σ : Nat → FV → FV} {ds : List Nat} {w w' : World} {r : R}
+theorem PostT.pre {env : Env} {σ : Nat → FV → Nat → FV} {ds : List Nat} {w w' : World} {r : R}
     (p : PostT env σ ds w w' r) (hc : w.ctx = none) : PreT ds w' r.ds :=
-  ⟨p.wok, p.ctx.trans hc, p.tick, p.nu, p.ex⟩
+  ⟨p.wok, p.ctx.trans hc, p.tick, p.nu, p.ex, p.sc⟩
 
-theorem PostT.trans' {env : Env} {σ : Nat → FV → FV} {ds : List Nat} {w w1 w2 : World}
+theorem PostT.trans' {env : Env} {σ : Nat → FV → Nat → FV} {ds : List Nat} {w w1 w2 : World}
     {r1 r2 : R} (h1 : PostT env σ ds w w1 r1) (h2 : PostT env σ ds w1 w2 r2) (b : Bool) :
     PostT env σ ds w w2 { f := r1.f.append r2.f, out := r2.out, s := r2.s, ds := r2.ds, wf := b } := by
-  refine ⟨?_, by rw [F.len_append, h1.flat, h2.flat], ?_, Nat.le_trans h1.grow h2.grow, h2.ctx.trans h1.ctx, h2.tick, h2.nu, h2.ex, h2.wok⟩
+  refine ⟨?_, by rw [F.len_append, h1.flat, h2.flat], ?_, Nat.le_trans h1.grow h2.grow, h2.ctx.trans h1.ctx, h2.tick, h2.nu, h2.ex, h2.sc, h2.wok⟩
   · rw [h2.stage, h1.stage, F.dicts_append, List.append_assoc, h1.flat]
   · intro h hh
     rw [h2.frame h (Nat.lt_of_lt_of_le hh h1.grow), h1.frame h hh]
 
-theorem PostT.same {env : Env} {σ : Nat → FV → FV} {ds : List Nat} {w w' : World} {s : Fields} {d : DS}
+theorem PostT.same {env : Env} {σ : Nat → FV → Nat → FV} {ds : List Nat} {w w' : World} {s : Fields} {d : DS}
     (pre : PreT ds w d) (ha : w'.acts = w.acts) (hs : w'.stage = w.stage) (hc : w'.ctx = w.ctx) (ht : w'.tick = w.tick)
-    (hn : w'.nextUuid = w.nextUuid) (hx : w'.extCalls = w.extCalls) (hd : w'.dests = w.dests) (hg : w'.globals = w.globals)
-    (o : Outcome) (b : Bool) :
+    (hn : w'.nextUuid = w.nextUuid) (hx : w'.extCalls = w.extCalls) (hsc : w'.serCalls = w.serCalls) (hd : w'.dests = w.dests)
+    (hg : w'.globals = w.globals) (o : Outcome) (b : Bool) :
     PostT env σ ds w w' { f := .nil, out := o, s := s, ds := d, wf := b } :=
   ⟨by simp [F.dicts, hs], rfl, fun h _ => by rw [ha], Nat.le_of_eq (by rw [ha]), hc, ht.trans pre.tick,
-   hn.trans pre.nu, hx.trans pre.ex, ⟨by rw [hd]; exact pre.wok.dests, by rw [hg]; exact pre.wok.globals⟩⟩
+   hn.trans pre.nu, hx.trans pre.ex, hsc.trans pre.sc, ⟨by rw [hd]; exact pre.wok.dests, by rw [hg]; exact pre.wok.globals⟩⟩
 
-theorem emitsT_seq {env : Env} {σ : Nat → FV → FV} {ds : List Nat} {w w1 : World} {r1 : R}
+theorem emitsT_seq {env : Env} {σ : Nat → FV → Nat → FV} {ds : List Nat} {w w1 : World} {r1 : R}
     {run2 : World → World × Outcome} {den2 : DS → Fields → R} (hc : w.ctx = none)
     (p1 : PostT env σ ds w w1 r1) (h2 : EmitsT env σ ds run2 den2) (b : Bool) (hwf2 : (den2 r1.ds r1.s).wf = true) :
     PostT env σ ds w (run2 w1).1
@@ -1672,20 +1707,22 @@ theorem emitsT_seq {env : Env} {σ : Nat → FV → FV} {ds : List Nat} {w w1 : 
   exact ⟨PostT.trans' p1 p2 b, o2, n2⟩
 
 /-- a message logged outside any action -/
-theorem postT_leaf {env : Env} {σ : Nat → FV → FV} {ds : List Nat} {w w' : World} {s : Fields} {d : DS}
+theorem postT_leaf {env : Env} {σ : Nat → FV → Nat → FV} {ds : List Nat} {w w' : World} {s : Fields} {d : DS}
     (pre : PreT ds w d) (ms : MSpec)
-    (e : Eff w w' (w.acts ++ [{ uuid := w.nextUuid, level := [], last := 1 }]) 1 1 [leafDict σ w.nextUuid [1] w.tick ms]) :
+    (e : Eff w w' (w.acts ++ [{ uuid := w.nextUuid, level := [], last := 1 }]) 1 1 (nser ms.sers)
+      [leafDict σ w.nextUuid [1] w.tick w.serCalls ms]) :
     PostT env σ ds w w' (leafR true d s ms) := by
-  refine ⟨?_, rfl, ?_, ?_, e.ctx, ?_, ?_, ?_, pre.wok.ofEff e⟩
-  · rw [e.stage, pre.tick, pre.nu]; simp [leafR, F.dicts, T.dicts, T.rootLevel]
+  refine ⟨?_, rfl, ?_, ?_, e.ctx, ?_, ?_, ?_, ?_, pre.wok.ofEff e⟩
+  · rw [e.stage, pre.tick, pre.nu, pre.sc]; simp [leafR, F.dicts, T.dicts, T.rootLevel]
   · intro h hh; rw [e.acts, List.getElem?_append_left hh]
   · rw [e.acts]; simp
   · rw [e.tick, pre.tick]; rfl
   · rw [e.nu, pre.nu]; rfl
   · rw [e.ext, pre.ex]; rfl
+  · rw [e.sc, pre.sc]; rfl
 
 /-- `with start_action(..)/start_task(..): body` outside any action: a new tree -/
-theorem emitsT_with {env : Env} {σ : Nat → FV → FV} {ds : List Nat} (H : EnvOK env σ ds) (cur : Option Exc) (task : Bool)
+theorem emitsT_with {env : Env} {σ : Nat → FV → Nat → FV} {ds : List Nat} (H : EnvOK env σ ds) (cur : Option Exc) (task : Bool)
     (sp : Spec) (body : Block) (hb : Emits env σ ds (fun w => execB env cur w body) (denB env cur true body)) :
     EmitsT env σ ds (fun w => execS env cur w (.withAction task sp body)) (denS env cur false (.withAction task sp body)) := by
   intro w s d pre hwf
@@ -1701,12 +1738,12 @@ theorem emitsT_with {env : Env} {σ : Nat → FV → FV} {ds : List Nat} (H : En
   simp only at hh e
   subst hh
   have ra := run_action H hb W1 w.acts
-    { uuid := w.nextUuid, level := [], atype := sp.atype, sers := sp.sers } { tick := d.tick + 1, nu := d.nu + 1, ex := d.ex }
-    (pre.wok.ofEff e) e.acts (by rw [e.tick, pre.tick]) (by rw [e.nu, pre.nu]) (by rw [e.ext, pre.ex]) hwf2
+    { uuid := w.nextUuid, level := [], atype := sp.atype, sers := sp.sers } { tick := d.tick + 1, nu := d.nu + 1, ex := d.ex, sc := d.sc + nser (sp.sers.map (·.1)) }
+    (pre.wok.ofEff e) e.acts (by rw [e.tick, pre.tick]) (by rw [e.nu, pre.nu]) (by rw [e.ext, pre.ex]) (by rw [e.sc, pre.sc]) hwf2
     (fun ho => by simpa [ho] using hps)
   obtain ⟨r1, r2, r3, r4, r5, r6, rx, r7, r8, r9⟩ := ra
-  refine ⟨⟨?_, rfl, r2, Nat.le_of_succ_le r3, r4.trans e.ctx, r5, r6, rx, r7⟩, r8, r9⟩
-  rw [r1, e.stage, pre.tick, pre.nu]
+  refine ⟨⟨?_, rfl, r2, Nat.le_of_succ_le r3, r4.trans e.ctx, r5, r6, rx.1, rx.2, r7⟩, r8, r9⟩
+  rw [r1, e.stage, pre.tick, pre.nu, pre.sc]
   simp [F.dicts, T.dicts, T.rootLevel, List.append_assoc]
 
 /-! ### the explicit spelling outside any action -/
@@ -1715,10 +1752,10 @@ theorem emitsT_with {env : Env} {σ : Nat → FV → FV} {ds : List Nat} (H : En
 def AI.top (sp : Spec) (d0 : DS) : AI := { uuid := d0.nu, level := [], atype := sp.atype, sers := sp.sers }
 
 /-- in the middle of an explicitly spelled top-level action (cf. `PreX`; no action is current) -/
-structure PreXT (env : Env) (σ : Nat → FV → FV) (ds : List Nat) (w0 w : World) (x h : Nat) (sp : Spec) (d0 : DS)
+structure PreXT (env : Env) (σ : Nat → FV → Nat → FV) (ds : List Nat) (w0 w : World) (x h : Nat) (sp : Spec) (d0 : DS)
     (kids : F) (sx : Fields) (d : DS) : Prop where
   wok : WOK w ds
-  stage : w.stage = w0.stage ++ startDict σ d0.nu [1] d0.tick sp :: F.dicts env σ d0.nu kids [] 2
+  stage : w.stage = w0.stage ++ startDict σ d0.nu [1] d0.tick d0.sc sp :: F.dicts env σ d0.nu kids [] 2
   inner : w.acts[h]? = some ((AI.top sp d0).act (1 + kids.len) sx)
   new : w0.acts.length ≤ h
   frame : ∀ g, g < w0.acts.length → w.acts[g]? = w0.acts[g]?
@@ -1728,8 +1765,9 @@ structure PreXT (env : Env) (σ : Nat → FV → FV) (ds : List Nat) (w0 w : Wor
   tick : w.tick = d.tick
   nu : w.nextUuid = d.nu
   ex : w.extCalls = d.ex
+  sc : w.serCalls = d.sc
 
-theorem postXT_finish {env : Env} {σ : Nat → FV → FV} {ds : List Nat} (H : EnvOK env σ ds) {w0 w : World}
+theorem postXT_finish {env : Env} {σ : Nat → FV → Nat → FV} {ds : List Nat} (H : EnvOK env σ ds) {w0 w : World}
     {s : Fields} {x h : Nat} {sp : Spec} {d0 : DS} {kids : F} {sx : Fields} {d : DS}
     (px : PreXT env σ ds w0 w x h sp d0 kids sx d) (exc : Option Nat)
     (hp : (closeR env true sp d0 s kids sx (finRes exc) d).wf = true) :
@@ -1749,11 +1787,12 @@ theorem postXT_finish {env : Env} {σ : Nat → FV → FV} {ds : List Nat} (H : 
   have hnu : wF.nextUuid = w.nextUuid + 0 := e.nu
   have hds : wF.dests = w.dests := e.dests
   have hgl : wF.globals = w.globals := e.globals
-  refine ⟨?_, by simp [closeR, F.len], ?_, ?_, hct.trans (px.ctx.trans px.ctx0.symm), ?_, ?_, ?_,
+  have hsc : wF.serCalls = w.serCalls + endSer (AI.top sp d0).sers (finRes exc) := e.sc
+  refine ⟨?_, by simp [closeR, F.len], ?_, ?_, hct.trans (px.ctx.trans px.ctx0.symm), ?_, ?_, ?_, ?_,
     ⟨by rw [hds]; exact px.wok.dests, by rw [hgl]; exact px.wok.globals⟩⟩
   · rw [hst, px.stage]
     have e1 : 1 + kids.len + 1 = kids.len + 2 := by omega
-    simp only [closeR, if_true, F.dicts, T.rootLevel, T.dicts, AI.act, AI.top, e1, px.tick, px.ex, List.append_assoc,
+    simp only [closeR, if_true, F.dicts, T.rootLevel, T.dicts, AI.act, AI.top, e1, px.tick, px.ex, px.sc, List.append_assoc,
       List.cons_append, List.append_nil, List.nil_append]
   · intro g hg
     rw [e.acts, List.getElem?_set_ne (by have := px.new; omega)]
@@ -1763,8 +1802,9 @@ theorem postXT_finish {env : Env} {σ : Nat → FV → FV} {ds : List Nat} (H : 
   · rw [htk, px.tick]; rfl
   · rw [hnu, px.nu]; rfl
   · rw [e.ext]; simp only [closeR, px.ex]
+  · rw [hsc, px.sc]; rfl
 
-theorem preXT_segment {env : Env} {σ : Nat → FV → FV} {ds : List Nat} {run : World → World × Outcome}
+theorem preXT_segment {env : Env} {σ : Nat → FV → Nat → FV} {ds : List Nat} {run : World → World × Outcome}
     {den : DS → Fields → R} (hb : Emits env σ ds run den) {w0 w : World}
     {x h : Nat} {sp : Spec} {d0 : DS} {kids : F} {sx : Fields} {d : DS}
     (px : PreXT env σ ds w0 w x h sp d0 kids sx d) (hwf : (den d sx).wf = true) (hok : (den d sx).out = .ok)
@@ -1772,7 +1812,7 @@ theorem preXT_segment {env : Env} {σ : Nat → FV → FV} {ds : List Nat} {run 
     (scopedBlock w h run).2 = .ok ∧
     PreXT env σ ds w0 (scopedBlock w h run).1 x h sp d0 (kids.append (den d sx).f) (den d sx).s (den d sx).ds := by
   have pre : Pre ds ({ w with ctx := some h } : World) h (AI.top sp d0) (1 + kids.len) sx d :=
-    ⟨⟨px.wok.dests, px.wok.globals⟩, px.inner, rfl, px.tick, px.nu, px.ex⟩
+    ⟨⟨px.wok.dests, px.wok.globals⟩, px.inner, rfl, px.tick, px.nu, px.ex, px.sc⟩
   obtain ⟨post, hout, _⟩ := hb _ _ _ _ _ _ pre hwf
   have hv' := hv ({ w with ctx := some h } : World)
   cases hrun : run ({ w with ctx := some h } : World) with
@@ -1781,7 +1821,7 @@ theorem preXT_segment {env : Env} {σ : Nat → FV → FV} {ds : List Nat} {run 
   simp only at post hout hv'
   refine ⟨by simp only [scopedBlock, hrun, hout, hok], ?_⟩
   simp only [scopedBlock, hrun]
-  refine ⟨⟨post.wok.dests, post.wok.globals⟩, ?_, ?_, px.new, ?_, px.ctx, px.ctx0, hv'.trans px.var, post.tick, post.nu, post.ex⟩
+  refine ⟨⟨post.wok.dests, post.wok.globals⟩, ?_, ?_, px.new, ?_, px.ctx, px.ctx0, hv'.trans px.var, post.tick, post.nu, post.ex, post.sc⟩
   · have e : 1 + kids.len + 1 = 2 + kids.len := by omega
     show Wb.stage = _
     rw [post.stage]
@@ -1795,17 +1835,17 @@ theorem preXT_segment {env : Env} {σ : Nat → FV → FV} {ds : List Nat} {run 
     rw [post.frame g (by have := px.new; have := lt_of_get px.inner; show g < w.acts.length; omega) (by have := px.new; omega)]
     exact px.frame g hg
 
-theorem preXT_logTo {env : Env} {σ : Nat → FV → FV} {ds : List Nat} (H : EnvOK env σ ds) {w0 w : World}
+theorem preXT_logTo {env : Env} {σ : Nat → FV → Nat → FV} {ds : List Nat} (H : EnvOK env σ ds) {w0 w : World}
     {x h : Nat} {sp : Spec} {d0 : DS} {kids : F} {sx : Fields} {d : DS}
     (px : PreXT env σ ds w0 w x h sp d0 kids sx d) (ms : MSpec) (hp : presentOpt ms.sers ms.fields = true) :
-    PreXT env σ ds w0 (w.logTo env h ms) x h sp d0 (kids.append (.own (.leaf d.tick ms) .nil)) sx
-      { tick := d.tick + 1, nu := d.nu, ex := d.ex } := by
+    PreXT env σ ds w0 (w.logTo env h ms) x h sp d0 (kids.append (.own (.leaf d.tick d.sc ms) .nil)) sx
+      { tick := d.tick + 1, nu := d.nu, ex := d.ex, sc := d.sc + nser ms.sers } := by
   have hlt := lt_of_get px.inner
   have e := eff_logTo H w px.wok h _ px.inner ms hp
-  refine ⟨px.wok.ofEff e, ?_, ?_, px.new, ?_, e.ctx.trans px.ctx, px.ctx0, ?_, ?_, ?_, ?_⟩
+  refine ⟨px.wok.ofEff e, ?_, ?_, px.new, ?_, e.ctx.trans px.ctx, px.ctx0, ?_, ?_, ?_, ?_, ?_⟩
   · have e1 : 1 + kids.len + 1 = 2 + kids.len := by omega
     rw [e.stage, px.stage, F.dicts_append]
-    simp [F.dicts, T.dicts, AI.act, AI.top, e1, px.tick]
+    simp [F.dicts, T.dicts, AI.act, AI.top, e1, px.tick, px.sc]
   · rw [e.acts, List.getElem?_set_self hlt, F.len_append]
     simp [AI.act, F.len, Nat.add_assoc]
   · intro g hg
@@ -1815,14 +1855,15 @@ theorem preXT_logTo {env : Env} {σ : Nat → FV → FV} {ds : List Nat} (H : En
   · rw [e.tick, px.tick]
   · rw [e.nu, px.nu]; rfl
   · rw [e.ext, px.ex]
+  · rw [e.sc, px.sc]
 
-theorem preXT_addSucc {env : Env} {σ : Nat → FV → FV} {ds : List Nat} {w0 w : World}
+theorem preXT_addSucc {env : Env} {σ : Nat → FV → Nat → FV} {ds : List Nat} {w0 w : World}
     {x h : Nat} {sp : Spec} {d0 : DS} {kids : F} {sx : Fields} {d : DS}
     (px : PreXT env σ ds w0 w x h sp d0 kids sx d) (fs : Fields) :
     PreXT env σ ds w0 { w with acts := w.acts.set h { (AI.top sp d0).act (1 + kids.len) sx with
         succ := ((AI.top sp d0).act (1 + kids.len) sx).succ.update fs } } x h sp d0 kids (sx.update fs) d := by
   have hlt := lt_of_get px.inner
-  refine ⟨⟨px.wok.dests, px.wok.globals⟩, px.stage, ?_, px.new, ?_, px.ctx, px.ctx0, px.var, px.tick, px.nu, px.ex⟩
+  refine ⟨⟨px.wok.dests, px.wok.globals⟩, px.stage, ?_, px.new, ?_, px.ctx, px.ctx0, px.var, px.tick, px.nu, px.ex, px.sc⟩
   · show (w.acts.set h _)[h]? = _
     rw [List.getElem?_set_self hlt]; rfl
   · intro g hg
@@ -1830,7 +1871,7 @@ theorem preXT_addSucc {env : Env} {σ : Nat → FV → FV} {ds : List Nat} {w0 w
     rw [List.getElem?_set_ne (by have := px.new; omega)]
     exact px.frame g hg
 
-theorem postXT_with {env : Env} {σ : Nat → FV → FV} {ds : List Nat} (H : EnvOK env σ ds) {run : World → World × Outcome}
+theorem postXT_with {env : Env} {σ : Nat → FV → Nat → FV} {ds : List Nat} (H : EnvOK env σ ds) {run : World → World × Outcome}
     {den : DS → Fields → R} (hb : Emits env σ ds run den) {w0 w : World}
     {s : Fields} {x h : Nat} {sp : Spec} {d0 : DS} {kids : F} {sx : Fields} {d : DS}
     (px : PreXT env σ ds w0 w x h sp d0 kids sx d)
@@ -1840,11 +1881,11 @@ theorem postXT_with {env : Env} {σ : Nat → FV → FV} {ds : List Nat} (H : En
   have hlt := lt_of_get px.inner
   simp only [closeW, Bool.and_eq_true] at hwf
   obtain ⟨r1, r2, r3, r4, r5, r6, r7, r8, r9, r10⟩ := run_handle H hb w h (AI.top sp d0) (1 + kids.len) sx d px.wok px.inner
-    px.tick px.nu px.ex hwf.1 (fun ho => by
+    px.tick px.nu px.ex px.sc hwf.1 (fun ho => by
       have := hwf.2
       simp only [closeR, ho] at this
       simpa [AI.top] using this)
-  refine ⟨⟨?_, by simp [closeW, closeR, F.len], ?_, ?_, r4.trans (px.ctx.trans px.ctx0.symm), ?_, r6, ?_, r8⟩, r9, r10⟩
+  refine ⟨⟨?_, by simp [closeW, closeR, F.len], ?_, ?_, r4.trans (px.ctx.trans px.ctx0.symm), ?_, r6, ?_, ?_, r8⟩, r9, r10⟩
   · rw [r1, px.stage]
     have e1 : 1 + kids.len + 1 = 2 + kids.len := by omega
     have e2 : 1 + kids.len + (den d sx).f.len + 1 = kids.len + (den d sx).f.len + 2 := by omega
@@ -1855,14 +1896,15 @@ theorem postXT_with {env : Env} {σ : Nat → FV → FV} {ds : List Nat} (H : En
     exact px.frame g hg
   · have := px.new; omega
   · rw [r5]; rfl
-  · rw [r7]; rfl
+  · rw [r7.1]; rfl
+  · rw [r7.2]; rfl
 
-theorem preXT_start {env : Env} {σ : Nat → FV → FV} {ds : List Nat} (H : EnvOK env σ ds) (cur : Option Exc) {w : World}
+theorem preXT_start {env : Env} {σ : Nat → FV → Nat → FV} {ds : List Nat} (H : EnvOK env σ ds) (cur : Option Exc) {w : World}
     {d : DS} (pre : PreT ds w d) (x : Nat) (task : Bool) (sp : Spec)
     (hp : presentOpt (sp.sers.map (·.1)) sp.fields = true) :
     (execS env cur w (.startAs x task sp)).2 = .ok ∧
     PreXT env σ ds w (execS env cur w (.startAs x task sp)).1 x w.acts.length sp d .nil []
-      { tick := d.tick + 1, nu := d.nu + 1, ex := d.ex } := by
+      { tick := d.tick + 1, nu := d.nu + 1, ex := d.ex, sc := d.sc + nser (sp.sers.map (·.1)) } := by
   refine ⟨by simp only [execS], ?_⟩
   simp only [execS]
   obtain ⟨hh, e⟩ := eff_start_fresh H w pre.wok task (Or.inr pre.ctx) sp hp
@@ -1872,9 +1914,9 @@ theorem preXT_start {env : Env} {σ : Nat → FV → FV} {ds : List Nat} (H : En
   simp only at hh e
   subst hh
   refine ⟨⟨fun d hd => (pre.wok.ofEff e).dests d hd, (pre.wok.ofEff e).globals⟩, ?_, ?_, Nat.le_refl _, ?_,
-    e.ctx.trans pre.ctx, pre.ctx, lookupNat_setNat_self _ _ _, ?_, ?_, ?_⟩
+    e.ctx.trans pre.ctx, pre.ctx, lookupNat_setNat_self _ _ _, ?_, ?_, ?_, ?_⟩
   · show W1.stage = _
-    rw [e.stage, pre.tick, pre.nu]
+    rw [e.stage, pre.tick, pre.nu, pre.sc]
     simp [F.dicts]
   · show W1.acts[w.acts.length]? = _
     rw [e.acts, List.getElem?_concat_length, pre.nu]
@@ -1888,8 +1930,10 @@ theorem preXT_start {env : Env} {σ : Nat → FV → FV} {ds : List Nat} (H : En
     rw [e.nu, pre.nu]
   · show W1.extCalls = _
     rw [e.ext, pre.ex]
+  · show W1.serCalls = _
+    rw [e.sc, pre.sc]
 
-def EmitsXT (env : Env) (σ : Nat → FV → FV) (ds : List Nat) (cur : Option Exc) (x : Nat) (b : Block) : Prop :=
+def EmitsXT (env : Env) (σ : Nat → FV → Nat → FV) (ds : List Nat) (cur : Option Exc) (x : Nat) (b : Block) : Prop :=
   ∀ (w0 w : World) (s : Fields) (h : Nat) (sp : Spec) (d0 : DS) (kids : F) (sx : Fields)
     (d : DS), PreXT env σ ds w0 w x h sp d0 kids sx d →
     (denX env cur false x true sp d0 s b kids sx d).wf = true →
@@ -1897,7 +1941,7 @@ def EmitsXT (env : Env) (σ : Nat → FV → FV) (ds : List Nat) (cur : Option E
       (execB env cur w b).2 = (denX env cur false x true sp d0 s b kids sx d).out ∧
       (denX env cur false x true sp d0 s b kids sx d).out ≠ .stuck
 
-theorem emitsXT_segment {env : Env} {σ : Nat → FV → FV} {ds : List Nat} (cur : Option Exc) (x : Nat) (body rest : Block)
+theorem emitsXT_segment {env : Env} {σ : Nat → FV → Nat → FV} {ds : List Nat} (cur : Option Exc) (x : Nat) (body rest : Block)
     (hb : Emits env σ ds (fun w => execB env cur w body) (denB env cur true body)) (hnb : body.binds x = false)
     (hr : EmitsXT env σ ds cur x rest)
     (st : Stmt) (hst : ∀ w h, lookupNat w.vars x = some h → execS env cur w st = scopedBlock w h (fun w' => execB env cur w' body))
@@ -1923,10 +1967,10 @@ theorem emitsXT_segment {env : Env} {σ : Nat → FV → FV} {ds : List Nat} (cu
     subst ok1
     simp only
     obtain ⟨p, o, nn⟩ := hr _ _ _ _ _ _ _ _ _ px1 hwf.2
-    exact ⟨⟨p.stage, p.flat, p.frame, p.grow, p.ctx, p.tick, p.nu, p.ex, p.wok⟩, o, nn⟩
+    exact ⟨⟨p.stage, p.flat, p.frame, p.grow, p.ctx, p.tick, p.nu, p.ex, p.sc, p.wok⟩, o, nn⟩
 
 mutual
-theorem execS_top {env : Env} {σ : Nat → FV → FV} {ds : List Nat} (H : EnvOK env σ ds) (cur : Option Exc) (inH : Bool)
+theorem execS_top {env : Env} {σ : Nat → FV → Nat → FV} {ds : List Nat} (H : EnvOK env σ ds) (cur : Option Exc) (inH : Bool)
     (hcur : inH = true → cur.isSome = true) (st : Stmt) (hs : st.structured inH false = true) :
     EmitsT env σ ds (fun w => execS env cur w st) (denS env cur false st) := by
   cases st with
@@ -1945,7 +1989,7 @@ theorem execS_top {env : Env} {σ : Nat → FV → FV} {ds : List Nat} (H : EnvO
     rw [hd]
     simp only [execS]
     refine ⟨?_, by simp, by simp⟩
-    refine PostT.same pre ?_ ?_ ?_ ?_ ?_ ?_ ?_ ?_ _ _ <;> rfl
+    refine PostT.same pre ?_ ?_ ?_ ?_ ?_ ?_ ?_ ?_ ?_ _ _ <;> rfl
   | tryCatch body handler =>
     intro w s d pre hwf
     simp only [Stmt.structured, Bool.and_eq_true] at hs
@@ -1982,7 +2026,7 @@ theorem execS_top {env : Env} {σ : Nat → FV → FV} {ds : List Nat} (H : EnvO
       rw [hd]
       simp only [execS, writeTraceback_eq H, pre.ex, tbR]
       have pre' : PreT ds ({ w with extCalls := (extOf env e d.ex).2 } : World) { d with ex := (extOf env e d.ex).2 } :=
-        ⟨⟨pre.wok.dests, pre.wok.globals⟩, pre.ctx, pre.tick, pre.nu, rfl⟩
+        ⟨⟨pre.wok.dests, pre.wok.globals⟩, pre.ctx, pre.tick, pre.nu, rfl, pre.sc⟩
       have ee := eff_log_out H _ pre'.wok pre'.ctx (tbSpec env e (extOf env e d.ex).1) rfl
       exact ⟨(postT_leaf pre' _ ee).ofExt, by simp [leafR], by simp [leafR]⟩
   | addSuccess x fs => cases x <;> simp [Stmt.structured] at hs
@@ -1993,7 +2037,7 @@ theorem execS_top {env : Env} {σ : Nat → FV → FV} {ds : List Nat} (H : EnvO
     rw [hd]
     simp only [execS]
     refine ⟨?_, by simp, by simp⟩
-    refine PostT.same pre ?_ ?_ ?_ ?_ ?_ ?_ ?_ ?_ _ _ <;> rfl
+    refine PostT.same pre ?_ ?_ ?_ ?_ ?_ ?_ ?_ ?_ ?_ _ _ <;> rfl
   | startAs x task sp => simp [Stmt.structured] at hs
   | withHandle x body => simp [Stmt.structured] at hs
   | inContext x body => simp [Stmt.structured] at hs
@@ -2008,7 +2052,7 @@ theorem execS_top {env : Env} {σ : Nat → FV → FV} {ds : List Nat} (H : EnvO
 /-- **Emission lemma, top level**: a structured block run outside any action stages exactly the
 dicts of its denotation — a sequence of separate trees (one per `with` block, one one-message task per
 message), each emitted in place — creates only new actions, and leaves the context empty. -/
-theorem execB_top {env : Env} {σ : Nat → FV → FV} {ds : List Nat} (H : EnvOK env σ ds) (cur : Option Exc) (inH : Bool)
+theorem execB_top {env : Env} {σ : Nat → FV → Nat → FV} {ds : List Nat} (H : EnvOK env σ ds) (cur : Option Exc) (inH : Bool)
     (hcur : inH = true → cur.isSome = true) (b : Block) (hs : b.structured inH false = true) :
     EmitsT env σ ds (fun w => execB env cur w b) (denB env cur false b) := by
   cases b with
@@ -2018,7 +2062,7 @@ theorem execB_top {env : Env} {σ : Nat → FV → FV} {ds : List Nat} (H : EnvO
     rw [hd]
     simp only [execB]
     refine ⟨?_, by simp, by simp⟩
-    refine PostT.same pre ?_ ?_ ?_ ?_ ?_ ?_ ?_ ?_ _ _ <;> rfl
+    refine PostT.same pre ?_ ?_ ?_ ?_ ?_ ?_ ?_ ?_ ?_ _ _ <;> rfl
   | cons st rest =>
     intro w s d pre hwf
     rcases Stmt.start_or st with ⟨x, task, sp, rfl⟩ | hns
@@ -2034,7 +2078,7 @@ theorem execB_top {env : Env} {σ : Nat → FV → FV} {ds : List Nat} (H : EnvO
       subst ok1
       simp only
       obtain ⟨p, o, nn⟩ := execX_top H cur inH hcur x rest hs w w1 s _ _ _ _ _ _ px hwf.2
-      exact ⟨⟨p.stage, p.flat, p.frame, p.grow, p.ctx, p.tick, p.nu, p.ex, p.wok⟩, o, nn⟩
+      exact ⟨⟨p.stage, p.flat, p.frame, p.grow, p.ctx, p.tick, p.nu, p.ex, p.sc, p.wok⟩, o, nn⟩
     · rw [Block.structured_cons _ _ _ _ hns] at hs
       simp only [Bool.and_eq_true] at hs
       obtain ⟨p1, o1, n1⟩ := execS_top H cur inH hcur st hs.1 w s d pre (by
@@ -2062,7 +2106,7 @@ theorem execB_top {env : Env} {σ : Nat → FV → FV} {ds : List Nat} (H : EnvO
         refine ⟨p1, ?_, ?_⟩ <;> simp
 /-- the explicit spelling at top level: the rest of a block after `x = start_action(sp)`, run while `x`
 is open and no action is current, completes the tree of `x` and goes on as a structured block. -/
-theorem execX_top {env : Env} {σ : Nat → FV → FV} {ds : List Nat} (H : EnvOK env σ ds) (cur : Option Exc) (inH : Bool)
+theorem execX_top {env : Env} {σ : Nat → FV → Nat → FV} {ds : List Nat} (H : EnvOK env σ ds) (cur : Option Exc) (inH : Bool)
     (hcur : inH = true → cur.isSome = true) (x : Nat) (b : Block) (hs : b.structuredX inH false x = true) :
     EmitsXT env σ ds cur x b := by
   cases b with
@@ -2097,7 +2141,7 @@ theorem execX_top {env : Env} {σ : Nat → FV → FV} {ds : List Nat} (H : EnvO
       have px1 := preXT_logTo H px ms hwf.1
       simp only [execB, execS, px.var]
       obtain ⟨p, o, nn⟩ := execX_top H cur inH hcur y rest hsr _ _ _ _ _ _ _ _ _ px1 hwf.2
-      exact ⟨⟨p.stage, p.flat, p.frame, p.grow, p.ctx, p.tick, p.nu, p.ex, p.wok⟩, o, nn⟩
+      exact ⟨⟨p.stage, p.flat, p.frame, p.grow, p.ctx, p.tick, p.nu, p.ex, p.sc, p.wok⟩, o, nn⟩
     | addSuccess z fs =>
       cases z with
       | none => simp [Block.structuredX] at hs
